@@ -12,13 +12,16 @@ use serde_json::{json, Value};
 use std::cell::RefCell;
 use std::collections::VecDeque;
 use zipora::containers::specialized::{
-    AdvancedStringConfig, AdvancedStringVec, AutoGrowCircularQueue, BitPackedStringVec32, BitPackedStringVec64,
+    AdvancedStringConfig, AdvancedStringVec, AutoGrowCircularQueue, BitPackedConfig, BitPackedStringVec32, BitPackedStringVec64,
     FixedCircularQueue, FixedLenStrVec, SortableStrVec, ValVec32, ZoSortedStrVec,
 };
 use zipora::containers::FastVec;
 use zipora::memory::bump::{BumpAllocator, BumpVec};
 use zipora::memory::cache::CacheAlignedVec;
-use zipora::memory::{MmapVec, MmapVecConfig};
+use zipora::memory::{MmapVec, MmapVecConfig, MmapVecConfigBuilder};
+
+#[path = "c10_breadth.rs"]
+mod breadth;
 
 const HEADER: &str = r#"From ZV.Common Require Import Base Run.
 From ZV.C10 Require Import Model ModelValVec32 ModelArena ModelStrVec ModelFixedLen ModelFastVecCopy ModelCases.
@@ -50,6 +53,16 @@ fn el(id: u64) -> El {
     El { id }
 }
 impl Clone for El { fn clone(&self) -> El { el(self.id) } }
+impl PartialEq for El { fn eq(&self, o: &El) -> bool { self.id == o.id } }
+impl std::fmt::Debug for El { fn fmt(&self, f: &mut std::fmt::Formatter<'_>) -> std::fmt::Result { write!(f, "#{}#", self.id) } }
+/// the element ids a `Debug` rendering shows, in order, whatever the surrounding punctuation (`#id#` markers of `El`)
+fn debug_marked_ids(s: &str) -> Vec<u64> {
+    let mut out = vec![]; let b = s.as_bytes(); let mut i = 0;
+    while i < b.len() { if b[i] == b'#' { let mut j = i + 1; while j < b.len() && b[j].is_ascii_digit() { j += 1; }
+            if j > i + 1 && j < b.len() && b[j] == b'#' { if let Ok(v) = s[i + 1..j].parse::<u64>() { out.push(v); } i = j + 1; continue; } }
+        i += 1; }
+    out
+}
 impl Drop for El {
     fn drop(&mut self) {
         if self.id == PH { return; }
@@ -84,6 +97,69 @@ fn live_mismatch<'a>(held: impl Iterator<Item = &'a u64>, next_id: u64) -> Optio
     })
 }
 
+// ---------------------------------------------------------------------------------------------
+// supervision: the whole run happens in a child process. Before a case runs, its JSON is written to a journal file; if
+// the child is taken down (abort from an unsafe-precondition check, SIGSEGV, glibc heap check - all of which a broken
+// container can cause from its safe API), the supervisor reports the journalled case as a failure of the property
+// ("the process was terminated where a value or an error is demanded") and starts the run again with that case left
+// out, so that everything else is still evaluated and the failure comes with a concrete replay.
+// ---------------------------------------------------------------------------------------------
+thread_local! {
+    static JOURNAL: RefCell<Option<std::fs::File>> = RefCell::new(None);
+    static SKIP: RefCell<Option<Vec<String>>> = RefCell::new(None);
+}
+/// note the case that is about to run; true = the supervisor has seen the process die in this case: leave it out
+fn journal(cj: &Value) -> bool {
+    use std::io::{Seek, SeekFrom, Write};
+    let line = cj.to_string();
+    let skip = SKIP.with(|s| { let mut s = s.borrow_mut();
+        if s.is_none() { *s = Some(std::env::var("ZV_C10_SKIP").ok().and_then(|f| std::fs::read_to_string(f).ok()).map(|t| t.lines().map(|l| l.to_string()).collect()).unwrap_or_default()); }
+        s.as_ref().map(|v| v.iter().any(|l| *l == line)).unwrap_or(false) });
+    if skip { return true; }
+    JOURNAL.with(|j| { let mut j = j.borrow_mut();
+        if j.is_none() { if let Ok(f) = std::env::var("ZV_C10_JOURNAL") { *j = std::fs::OpenOptions::new().create(true).write(true).open(f).ok(); } }
+        if let Some(f) = j.as_mut() { let _ = f.seek(SeekFrom::Start(0)); let _ = f.write_all(line.as_bytes()); let _ = f.set_len(line.len() as u64); } });
+    false
+}
+fn supervise(args: &Args) -> bool {
+    let exe = match std::env::current_exe() { Ok(e) => e, Err(_) => return false };
+    let journal_f = format!("{}/journal.json", args.out); let skip_f = format!("{}/skip.jsonl", args.out);
+    let _ = std::fs::remove_file(format!("{}/summary.json", args.out));   // never mistake the result of an earlier run for this one's
+    let mut crashed: Vec<(Value, String)> = vec![];
+    let mut unattributed: Option<String> = None;
+    for _ in 0..8 {
+        if std::fs::write(&skip_f, crashed.iter().map(|(c, _)| c.to_string()).collect::<Vec<_>>().join("\n")).is_err() { return false; }
+        let _ = std::fs::remove_file(&journal_f);
+        let mut cmd = std::process::Command::new(&exe);
+        cmd.args(["C10", "--seed", &args.seed.to_string(), "--tier", if args.thorough { "thorough" } else { "quick" }, "--out", &args.out]);
+        if let Some(f) = &args.replay { cmd.args(["--replay", f]); }
+        cmd.env("ZV_C10_CHILD", "1").env("ZV_C10_JOURNAL", &journal_f).env("ZV_C10_SKIP", &skip_f);
+        match cmd.status() {
+            Err(_) => return false,
+            Ok(s) if s.success() => break,
+            Ok(s) => { let last: Option<Value> = std::fs::read_to_string(&journal_f).ok().and_then(|t| serde_json::from_str(&t).ok());
+                       match last { Some(c) if !crashed.iter().any(|(x, _)| *x == c) => crashed.push((c, s.to_string())),
+                                    _ => { unattributed = Some(s.to_string()); break; } } }
+        }
+    }
+    let _ = std::fs::remove_file(&journal_f); let _ = std::fs::remove_file(&skip_f);
+    if crashed.is_empty() && unattributed.is_none() { return true; }
+    // add the cases the process died in to what the last child wrote (or to an empty summary if no child came through)
+    let sf = format!("{}/summary.json", args.out);
+    let complete = unattributed.is_none() && std::path::Path::new(&sf).exists();
+    let mut v: Value = if complete { std::fs::read_to_string(&sf).ok().and_then(|t| serde_json::from_str(&t).ok()).unwrap_or(Value::Null) } else { Value::Null };
+    if !v.is_object() { let s = Summary::new("C10", "supervisor: no child process completed the run"); s.write(&args.out, vec![]); v = std::fs::read_to_string(&sf).ok().and_then(|t| serde_json::from_str(&t).ok()).unwrap_or(json!({})); }
+    let mut fs: Vec<Value> = v["failures"].as_array().cloned().unwrap_or_default();
+    for (c, st) in &crashed {
+        let cell = format!("process terminated in a {} case", c["cell"].as_str().unwrap_or("?"));
+        fs.push(json!({"cell": cell, "class": Value::Null, "case": c, "detail": format!("the process was terminated ({}) while this case ran, where the property demands a value or an error", st)}));
+    }
+    if let Some(st) = unattributed { fs.insert(0, json!({"cell": "process terminated", "class": Value::Null, "case": {"cell": "none"}, "detail": format!("the process was terminated ({}) outside of any case / again in a case that was left out", st)})); }
+    v["failures"] = json!(fs);
+    let _ = std::fs::write(&sf, serde_json::to_string_pretty(&v).unwrap_or_default());
+    true
+}
+
 #[derive(Clone, Copy, PartialEq)]
 enum Coq { Never, Budget, Always }
 struct Ctx { sum: Summary, shards: CoqShards, budgets: std::collections::BTreeMap<&'static str, (usize, usize)> }
@@ -105,16 +181,49 @@ fn parse_ops(v: &Value) -> Vec<Vec<u64>> {
 // ---------------------------------------------------------------------------------------------
 // AutoGrowCircularQueue<El>   ops: [0] push_back  [1] pop_front  [2,k] push_bulk  [3,k] pop_bulk
 //                                  [4,n] reserve  [5] clear  [6] front  [7] back  [8] clone, drop original
+//                                  [9] push (alias)  [10] pop (alias)  [11,k] == against clone / re-built / differing queues
+//                                  [12] Debug       constructor "ctor": 0 with_capacity(cap), 1 new(), 2 Default
 // ---------------------------------------------------------------------------------------------
 fn enc_opt(o: Option<u64>) -> Vec<i128> { match o { None => vec![1], Some(x) => vec![2, x as i128] } }
 
-fn ring_history(cx: &mut Ctx, cap0: u64, ops: &[Vec<u64>], coq: Coq) {
+/// the ring ids a queue built by `mk` shows when it is drained (harness-owned copies, not logged)
+fn ring_same_sequence(q: &AutoGrowCircularQueue<El>, shadow: &VecDeque<u64>, k: u64) -> Option<String> {
+    quiet(|| {
+        // clone: equal in both directions
+        let mut c = q.clone();
+        if !(*q == c) || !(c == *q) { return Some("q == q.clone() is false".to_string()); }
+        // the same sequence in a ring of another capacity whose head sits at another offset
+        let mut d: AutoGrowCircularQueue<El> = AutoGrowCircularQueue::with_capacity(((k % 3) * 7 + 1) as usize);
+        for _ in 0..(k % 5) { let _ = d.push_back(el(PH)); let _ = d.pop_front(); }
+        for &x in shadow.iter() { let _ = d.push_back(el(x)); }
+        if !(*q == d) || !(d == *q) { return Some(format!("== is false for a queue holding the same sequence {:?} at another offset / capacity", shadow.iter().take(8).collect::<Vec<_>>())); }
+        // one element more
+        let _ = d.push_back(el(PH));
+        if *q == d || d == *q { return Some("== is true for queues of different length".to_string()); }
+        // same length, one element different (at the front, in the middle or at the back)
+        if !shadow.is_empty() {
+            let n = shadow.len(); let pos = [0, n / 2, n - 1][(k % 3) as usize];
+            let mut e: AutoGrowCircularQueue<El> = AutoGrowCircularQueue::new();
+            for (i, &x) in shadow.iter().enumerate() { let _ = e.push_back(if i == pos { el(PH) } else { el(x) }); }
+            if *q == e || e == *q { return Some(format!("== is true for queues that differ at position {} of {}", pos, n)); }
+            // the clone diverges: rotate it by one
+            if let Some(x) = c.pop_front() { let _ = c.push_back(x); }
+            if n >= 2 && shadow[0] != shadow[1] && *q == c { return Some("== is true after the clone was rotated by one".to_string()); }
+        }
+        None
+    })
+}
+
+fn ring_history(cx: &mut Ctx, cap0: u64, ctor: u64, ops: &[Vec<u64>], coq: Coq) {
     let cell = "AutoGrowCircularQueue";
-    cx.sum.eval(cell, &format!("ring {} {:?}", cap0, ops), ops.len() >= 3);
-    let cj = json!({"cell": "ring", "cap": cap0, "ops": ops});
+    cx.sum.eval(cell, &format!("ring {} {} {:?}", cap0, ctor, ops), ops.len() >= 3);
+    let cj = if ctor == 0 { json!({"cell": "ring", "cap": cap0, "ops": ops}) } else { json!({"cell": "ring", "cap": cap0, "ctor": ctor, "ops": ops}) };
+    if journal(&cj) { return; }
     reset_counters();
     let mut next_id: u64 = 0;
-    let mut q: AutoGrowCircularQueue<El> = AutoGrowCircularQueue::with_capacity(cap0 as usize);
+    // ctor 1: new(), 2: Default::default() - both INITIAL_CAPACITY = what with_capacity(4) builds
+    let cap0 = if ctor == 0 { cap0 } else { 4 };
+    let mut q: AutoGrowCircularQueue<El> = match ctor { 0 => AutoGrowCircularQueue::with_capacity(cap0 as usize), 1 => AutoGrowCircularQueue::new(), _ => Default::default() };
     let mut shadow: VecDeque<u64> = VecDeque::new();
     let mut coq_ops: Vec<String> = vec![];
     let mut expect: Vec<String> = vec![];
@@ -129,14 +238,20 @@ fn ring_history(cx: &mut Ctx, cap0: u64, ops: &[Vec<u64>], coq: Coq) {
         let mut ret: Vec<i128> = vec![0];
         let mut drops_o: Option<Vec<u64>> = None;
         let mut problem: Option<String> = None;
+        let mut observed_only = false;
         let r = match code {
-            0 => { let id = next_id; next_id += 1; coq_ops.push(format!("TQ (PushBack {})", id));
+            0 | 9 => { let id = next_id; next_id += 1; coq_ops.push(format!("TQ (PushBack {})", id));
                    let x = el(id);
-                   guarded(|| { match q.push_back(x) { Ok(()) => { shadow.push_back(id); } Err(e) => problem = Some(format!("push_back refused: {:?}", e)) } }) }
-            1 => { coq_ops.push("TQ PopFront".into());
-                   guarded(|| { let got = q.pop_front(); let gid = got.as_ref().map(|e| e.id); drops_o = Some(take_drops()); drop(got);
+                   guarded(|| { match if code == 0 { q.push_back(x) } else { q.push(x) } { Ok(()) => { shadow.push_back(id); } Err(e) => problem = Some(format!("push_back refused: {:?}", e)) } }) }
+            1 | 10 => { coq_ops.push("TQ PopFront".into());
+                   guarded(|| { let got = if code == 1 { q.pop_front() } else { q.pop() }; let gid = got.as_ref().map(|e| e.id); drops_o = Some(take_drops()); drop(got);
                        let want = shadow.pop_front(); ret = enc_opt(gid);
                        if gid != want { problem = Some(format!("pop_front returned {:?}, a VecDeque returns {:?}", gid, want)); } }) }
+            // observations outside the mechanism model (the queue is not changed, nothing is pushed to the Coq trace)
+            11 => { observed_only = true; guarded(|| { problem = ring_same_sequence(&q, &shadow, k); }) }
+            12 => { observed_only = true;
+                    guarded(|| { let got = debug_marked_ids(&format!("{:?}", q)); let want: Vec<u64> = shadow.iter().copied().collect();
+                        if got != want { problem = Some(format!("Debug shows {:?}, a VecDeque holds {:?}", &got[..got.len().min(12)], &want[..want.len().min(12)])); } }) }
             2 => { let ids: Vec<u64> = (0..k).map(|i| next_id + i).collect(); next_id += k;
                    coq_ops.push(format!("TQ (PushBulk {})", nlist(&ids)));
                    let items: Vec<El> = ids.iter().map(|&i| el(i)).collect();
@@ -169,11 +284,13 @@ fn ring_history(cx: &mut Ctx, cap0: u64, ops: &[Vec<u64>], coq: Coq) {
         if st.capacity > st0.capacity && was_wrapped { wrapped_growth = true; }
         if problem.is_none() && q.len() != shadow.len() { problem = Some(format!("len() = {} but a VecDeque holds {}", q.len(), shadow.len())); }
         if problem.is_none() && q.is_empty() != shadow.is_empty() { problem = Some("is_empty() disagrees".into()); }
+        if problem.is_none() && (q.capacity() < q.len() || q.capacity() != st.capacity) { problem = Some(format!("capacity() = {} with {} elements (performance_stats: {})", q.capacity(), q.len(), st.capacity)); }
         if problem.is_none() { let f = guarded(|| (q.front().map(|e| e.id), q.back().map(|e| e.id)));
             match f { Ok((a, b)) => if a != shadow.front().copied() || b != shadow.back().copied() { problem = Some(format!("front/back = {:?}/{:?}, VecDeque {:?}/{:?}", a, b, shadow.front(), shadow.back())); },
                       Err(p) => problem = Some(format!("front/back panicked: {}", p)) } }
         if problem.is_none() { problem = live_mismatch(shadow.iter(), next_id); }
         if let Some(p) = problem { cx.sum.fail(cell, None, cj.clone(), &format!("after op {:?}: {}", o, p)); failed = true; break; }
+        if observed_only { continue; }
         let mut e = ret; e.push(-7); e.extend(drops.iter().map(|&x| x as i128));
         e.extend([-8, st.length as i128, st.capacity as i128, st.head_index as i128, st.tail_index as i128]);
         expect.push(zlist(&e));
@@ -197,14 +314,16 @@ fn ring_history(cx: &mut Ctx, cap0: u64, ops: &[Vec<u64>], coq: Coq) {
 
 // ---------------------------------------------------------------------------------------------
 // FixedCircularQueue<El, N>   ops: [0] push_back  [1] pop_front  [5] clear  [6] front  [7] back
+//                                  [9] push (alias)  [10] pop (alias)  [12] Debug; new() / Default by parity of the history length
 // ---------------------------------------------------------------------------------------------
 fn fixed_history_n<const N: usize>(cx: &mut Ctx, ops: &[Vec<u64>], coq: Coq) {
     let cell = "FixedCircularQueue";
     cx.sum.eval(cell, &format!("fixed {} {:?}", N, ops), ops.len() >= 3);
     let cj = json!({"cell": "fixed", "cap": N, "ops": ops});
+    if journal(&cj) { return; }
     reset_counters();
     let mut next_id: u64 = 0;
-    let mut q: FixedCircularQueue<El, N> = FixedCircularQueue::new();
+    let mut q: FixedCircularQueue<El, N> = if ops.len() % 2 == 0 { FixedCircularQueue::new() } else { Default::default() };
     let mut shadow: VecDeque<u64> = VecDeque::new();
     let mut coq_ops: Vec<String> = vec![];
     let mut expect: Vec<String> = vec![];
@@ -215,17 +334,21 @@ fn fixed_history_n<const N: usize>(cx: &mut Ctx, ops: &[Vec<u64>], coq: Coq) {
         let mut ret: Vec<i128> = vec![0];
         let mut drops_o: Option<Vec<u64>> = None;
         let mut problem: Option<String> = None;
+        let mut observed_only = false;
         let r = match code {
-            0 => { let id = next_id; next_id += 1; coq_ops.push(format!("PushBack {}", id));
+            0 | 9 => { let id = next_id; next_id += 1; coq_ops.push(format!("PushBack {}", id));
                    let x = el(id);
                    guarded(|| { let full = shadow.len() == N;
-                       match q.push_back(x) {
+                       match if code == 0 { q.push_back(x) } else { q.push(x) } {
                            Ok(()) => { if full { problem = Some(format!("push_back accepted element {} beyond the capacity {}", id, N)); } shadow.push_back(id); }
                            Err(_) => { ret = vec![-1]; if !full { problem = Some(format!("push_back refused with {} of {} slots used", shadow.len(), N)); } } } }) }
-            1 => { coq_ops.push("PopFront".into());
-                   guarded(|| { let got = q.pop_front(); let gid = got.as_ref().map(|e| e.id); drops_o = Some(take_drops()); drop(got);
+            1 | 10 => { coq_ops.push("PopFront".into());
+                   guarded(|| { let got = if code == 1 { q.pop_front() } else { q.pop() }; let gid = got.as_ref().map(|e| e.id); drops_o = Some(take_drops()); drop(got);
                        let want = shadow.pop_front(); ret = enc_opt(gid);
                        if gid != want { problem = Some(format!("pop_front returned {:?}, a VecDeque returns {:?}", gid, want)); } }) }
+            12 => { observed_only = true;
+                    guarded(|| { let got = debug_marked_ids(&format!("{:?}", q)); let want: Vec<u64> = shadow.iter().copied().collect();
+                        if got != want { problem = Some(format!("Debug shows {:?}, a VecDeque holds {:?}", got, want)); } }) }
             5 => { coq_ops.push("Clear".into()); guarded(|| { q.clear(); shadow.clear(); }) }
             6 => { coq_ops.push("Front".into());
                    guarded(|| { let g = q.front().map(|e| e.id); ret = enc_opt(g);
@@ -236,12 +359,14 @@ fn fixed_history_n<const N: usize>(cx: &mut Ctx, ops: &[Vec<u64>], coq: Coq) {
         };
         let late = take_drops(); let mut drops = drops_o.unwrap_or(late); drops.sort();
         if let Err(p) = r { cx.sum.fail(cell, None, cj.clone(), &format!("op {:?} panicked: {}", o, p)); failed = true; break; }
+        if problem.is_none() && q.capacity() != N { problem = Some(format!("capacity() = {} for FixedCircularQueue<_, {}>", q.capacity(), N)); }
         if problem.is_none() && (q.len() != shadow.len() || q.is_empty() != shadow.is_empty() || q.is_full() != (shadow.len() == N)) {
             problem = Some(format!("len() = {} / is_full() = {} but a bounded VecDeque holds {} of {}", q.len(), q.is_full(), shadow.len(), N)); }
         if problem.is_none() { let (a, b) = (q.front().map(|e| e.id), q.back().map(|e| e.id));
             if a != shadow.front().copied() || b != shadow.back().copied() { problem = Some(format!("front/back = {:?}/{:?}, VecDeque {:?}/{:?}", a, b, shadow.front(), shadow.back())); } }
         if problem.is_none() { problem = live_mismatch(shadow.iter(), next_id); }
         if let Some(p) = problem { cx.sum.fail(cell, None, cj.clone(), &format!("after op {:?}: {}", o, p)); failed = true; break; }
+        if observed_only { continue; }
         let mut e = ret; e.push(-7); e.extend(drops.iter().map(|&x| x as i128)); e.extend([-8, q.len() as i128]);
         expect.push(zlist(&e));
     }
@@ -264,12 +389,16 @@ fn fixed_history(cx: &mut Ctx, n: u64, ops: &[Vec<u64>], force: Coq) {
 // vector operation vocabulary (all vector cells)
 //  [0] push  [1] pop  [2,i] insert  [3,i] remove  [4,n] resize  [5] clear  [6] shrink_to_fit  [7,k] extend
 //  [8,n] reserve  [9,i] get  [10] clone, drop original  [11,i] set  [12,n] truncate  [13,a,b] fill_range
-//  [14,k] pop_bulk  [15,k] copy_from (replace contents by k new values)  [16,k] push_n
+//  [14,k] pop_bulk  [15,k] copy_from (replace contents by k new values)  [16,k] push_n  [17,n] ensure_capacity  [18,n] resize_with
+//  [19,n] replace by with_size(n, x)  [20,i,acc] read through a secondary accessor  [21,i,acc] write through one
+//  [22,k] == / compare_range  [23] Debug  [24,it] iterators  [25] unchecked push  [26,k] k pushes  [27] sync + open
+//  case fields: "ctor" (other constructor / preset, 0 = with_capacity(cap)), "big" (amounts up to 2^21 instead of 400)
 // ---------------------------------------------------------------------------------------------
 fn fastvec_history(cx: &mut Ctx, cap0: u64, ops: &[Vec<u64>], coq: Coq) {
     let cell = "FastVec<El>";
     cx.sum.eval(cell, &format!("fastvec {} {:?}", cap0, ops), ops.len() >= 3);
     let cj = json!({"cell": "fastvec", "cap": cap0, "ops": ops});
+    if journal(&cj) { return; }
     reset_counters();
     let mut next_id: u64 = 0;
     let mut v: FastVec<El> = if cap0 == 0 { FastVec::new() } else { FastVec::with_capacity(cap0 as usize).expect("with_capacity") };
@@ -336,14 +465,38 @@ fn fastvec_history(cx: &mut Ctx, cap0: u64, ops: &[Vec<u64>], coq: Coq) {
 }
 
 // ----- S-only vector cells behind one small interface -----
-trait Elem: Sized { const COUNTED: bool; fn make(id: u64) -> Self; fn id(&self) -> u64; }
-impl Elem for El { const COUNTED: bool = true; fn make(id: u64) -> El { el(id) } fn id(&self) -> u64 { self.id } }
+trait Elem: Sized {
+    const COUNTED: bool;
+    /// false for zero-sized elements (all values are equal)
+    const DISTINCT: bool = true;
+    fn make(id: u64) -> Self;
+    fn id(&self) -> u64;
+    /// a value whose id is not `cur` (owned by the harness, never counted)
+    fn other_than(cur: u64) -> Self { let mut k = 0; loop { let x = Self::make(k); if x.id() != cur { return x; } k += 1; } }
+    /// the ids a Debug rendering of a list of such elements shows, in order - only element types that mark their ids
+    /// (`El`) are compared: how a container lays out its Debug text is its own business
+    fn parse_debug(_s: &str) -> Vec<u64> { vec![] }
+}
+impl Elem for El { const COUNTED: bool = true; fn make(id: u64) -> El { el(id) } fn id(&self) -> u64 { self.id }
+    fn other_than(_cur: u64) -> El { el(PH) } fn parse_debug(s: &str) -> Vec<u64> { debug_marked_ids(s) } }
 impl Elem for u64 { const COUNTED: bool = false; fn make(id: u64) -> u64 { id.wrapping_mul(0x9E3779B97F4A7C15) ^ 0x5555 } fn id(&self) -> u64 { *self } }
 impl Elem for u8 { const COUNTED: bool = false; fn make(id: u64) -> u8 { (id * 7 + 1) as u8 } fn id(&self) -> u64 { *self as u64 } }
+/// signed 2-byte elements (the 64-byte SIMD switch sits at 32 elements)
+impl Elem for i16 { const COUNTED: bool = false; fn make(id: u64) -> i16 { (id as i64 * 12345 - 20000) as i16 } fn id(&self) -> u64 { *self as u16 as u64 } }
+/// 16-byte elements with 16-byte alignment (4 elements per 64 bytes)
+impl Elem for u128 { const COUNTED: bool = false; fn make(id: u64) -> u128 { (id as u128) | (((id ^ 0x5A5A) as u128) << 64) } fn id(&self) -> u64 { *self as u64 } }
+/// 24-byte elements: the size is not a power of two and does not divide a cache line
+#[derive(Clone, Copy, PartialEq, Debug)]
+struct Wide(u64, u64, u64);
+impl Elem for Wide { const COUNTED: bool = false; fn make(id: u64) -> Wide { Wide(id * 3 + 1, !id, id ^ 7) } fn id(&self) -> u64 { self.0 } }
+/// zero-sized elements
+impl Elem for () { const COUNTED: bool = false; const DISTINCT: bool = false; fn make(_id: u64) {} fn id(&self) -> u64 { 0 } fn other_than(_cur: u64) {} }
 
 enum R<T> { Unsup, Unit, Refused, Val(Option<T>), List(Vec<T>) }
 trait VecApi<T: Elem>: Sized {
     fn create(cap: usize) -> Self;
+    /// the other constructors / presets of the cell ("ctor" of the case; 0 = `create`)
+    fn create_alt(cap: usize, _alt: u64) -> Self { Self::create(cap) }
     fn fixed_capacity(&self) -> Option<usize> { None }
     fn len(&self) -> usize;
     fn ids(&self) -> Vec<u64>;
@@ -366,6 +519,24 @@ trait VecApi<T: Elem>: Sized {
     fn push_n(&mut self, _k: usize, _x: T) -> R<T> { R::Unsup }
     fn ensure(&mut self, _n: usize) -> R<T> { R::Unsup }
     fn resize_with(&mut self, _n: usize, _mk: &mut dyn FnMut() -> T) -> R<T> { R::Unsup }
+    /// [19] a new vector from the filling constructor
+    fn with_size(_n: usize, _x: T) -> Option<Self> { None }
+    /// [20] the secondary read accessors (Index, Deref, iterators, unchecked) - outer None: the cell has none
+    fn read_alt(&self, _i: usize, _variant: u64) -> Option<Option<u64>> { None }
+    /// [21] write through the secondary accessors (IndexMut, get_mut, as_mut_slice, iter_mut); Refused = index reported as out of range
+    fn write_alt(&mut self, _i: usize, _x: T, _variant: u64) -> R<T> { R::Unsup }
+    /// [22] PartialEq / range comparison against a clone, against differing contents and lengths; Some(Some(d)) = wrong answer
+    fn eq_probe(&self, _k: u64) -> Option<Option<String>> { None }
+    /// [23] the elements Debug shows
+    fn debug_ids(&self) -> Option<Vec<u64>> { None }
+    /// [24] the elements the iterators yield
+    fn iter_ids(&self, _variant: u64) -> Option<Vec<u64>> { None }
+    /// [25] push without the capacity check where the capacity is there, checked push otherwise
+    fn push_unchecked(&mut self, _x: T) -> R<T> { R::Unsup }
+    /// [27] write to the backing store, drop, open again
+    fn reopen(&mut self) -> R<T> { R::Unsup }
+    /// accessors that must agree with each other (len / len_usize / is_empty ...), after every operation
+    fn aux(&self) -> Option<String> { None }
     fn capacity(&self) -> usize { 0 }
     /// M+S cells: the cell name under which Coq cases are budgeted, the head of the Coq case (constructor + initial
     /// parameters) and the Coq term of one operation (`vals` = the values created for it, `cap_after` = capacity after
@@ -380,11 +551,61 @@ fn enc_r<T: Elem>(r: &R<T>) -> Vec<i128> {
 }
 fn unit<T, E>(r: Result<(), E>) -> R<T> { match r { Ok(()) => R::Unit, Err(_) => R::Refused } }
 
+/// `==` of a container type against: its clone (both directions), a clone that differs in exactly one element (first,
+/// middle, last, k-th) and a clone that is one element shorter. Everything built here is owned by the harness.
+fn eq_probe_generic<C: PartialEq, T: Elem>(v: &C, len: usize, k: u64, clone: impl Fn(&C) -> C, id_at: impl Fn(&C, usize) -> u64,
+                                           set: impl Fn(&mut C, usize, T), shorten: impl Fn(&mut C)) -> Option<String> {
+    quiet(|| {
+        let c = clone(v);
+        if !(*v == c) || !(c == *v) || *v != c { return Some(format!("v == v.clone() is false ({} elements)", len)); }
+        if len == 0 { return None; }
+        if T::DISTINCT {
+            let mut seen = vec![];
+            for pos in [0, len / 2, len - 1, (k as usize) % len] {
+                if seen.contains(&pos) { continue; } seen.push(pos);
+                let mut d = clone(v);
+                let cur = id_at(&d, pos);
+                set(&mut d, pos, T::other_than(cur));
+                if *v == d || d == *v { return Some(format!("== is true for two vectors of {} elements that differ at index {}", len, pos)); }
+            }
+        }
+        let mut s = clone(v); shorten(&mut s);
+        if *v == s || s == *v { return Some(format!("== is true for vectors of {} and {} elements", len, len - 1)); }
+        None
+    })
+}
+
+// ----- FastVec -----
+fn fv_read_alt<T: Elem>(v: &FastVec<T>, i: usize, variant: u64) -> Option<u64> {
+    if i >= v.len() { return if variant % 2 == 0 { v.as_slice().get(i).map(|x| x.id()) } else { (**v).get(i).map(|x| x.id()) }; }
+    Some(match variant % 5 { 0 => v[i].id(), 1 => unsafe { v.get_unchecked(i) }.id(), 2 => (**v)[i].id(),
+                             3 => v.iter().nth(i).map(|x| x.id()).unwrap_or(u64::MAX), _ => v.as_slice()[i].id() })
+}
+fn fv_write_alt<T: Elem>(v: &mut FastVec<T>, i: usize, x: T, variant: u64) -> R<T> {
+    if i >= v.len() { return if v.as_mut_slice().get_mut(i).is_none() { R::Refused } else { R::Unit }; }
+    match variant % 4 { 0 => v[i] = x, 1 => v.as_mut_slice()[i] = x, 2 => unsafe { *v.get_unchecked_mut(i) = x },
+                        _ => { if let Some(s) = v.iter_mut().nth(i) { *s = x; } } }
+    R::Unit
+}
+fn fv_eq_probe<T: Elem + Clone + PartialEq>(v: &FastVec<T>, k: u64) -> Option<String> {
+    eq_probe_generic::<FastVec<T>, T>(v, v.len(), k, |c| c.clone(), |c, i| c.as_slice()[i].id(), |c, i, x| c.as_mut_slice()[i] = x, |c| { c.pop(); })
+}
+fn fv_iter_ids<T: Elem>(v: &FastVec<T>, variant: u64) -> Vec<u64> {
+    match variant % 3 { 0 => v.iter().map(|x| x.id()).collect(), 1 => (&**v).into_iter().map(|x| x.id()).collect(), _ => { let mut o = vec![]; for i in 0..v.len() { o.push(v[i].id()); } o } }
+}
+fn fv_aux<T>(v: &FastVec<T>) -> Option<String> {
+    if v.is_empty() != (v.len() == 0) { return Some("is_empty() disagrees with len()".into()); }
+    if v.len() > 0 && (v.as_ptr().is_null() || v.as_ptr() != v.as_slice().as_ptr()) { return Some("as_ptr() is not where as_slice() starts".into()); }
+    None
+}
+
 /// FastVec over the drop-counting element type, through the generic (oracle-only) history runner: the operations the
-/// Coq-traced FastVec<El> cell does not have (resize_with), with every element construction and destruction counted.
+/// Coq-traced FastVec<El> cell does not have (resize_with, with_size, the secondary accessors, ==, Debug), with every
+/// element construction and destruction counted.
 struct FvEl(FastVec<El>);
 impl VecApi<El> for FvEl {
     fn create(cap: usize) -> Self { FvEl(if cap == 0 { FastVec::new() } else { FastVec::with_capacity(cap).unwrap() }) }
+    fn create_alt(cap: usize, alt: u64) -> Self { if alt == 1 { FvEl(Default::default()) } else { Self::create(cap) } }
     fn len(&self) -> usize { self.0.len() }
     fn ids(&self) -> Vec<u64> { self.0.as_slice().iter().map(|x| x.id()).collect() }
     fn get(&self, i: usize) -> Option<u64> { self.0.as_slice().get(i).map(|x| x.id()) }
@@ -399,10 +620,19 @@ impl VecApi<El> for FvEl {
     fn reserve(&mut self, n: usize) -> R<El> { unit(self.0.reserve(n)) }
     fn clone_self(&self) -> Option<Self> { Some(FvEl(self.0.clone())) }
     fn resize_with(&mut self, n: usize, mk: &mut dyn FnMut() -> El) -> R<El> { unit(self.0.resize_with(n, || mk())) }
+    fn with_size(n: usize, x: El) -> Option<Self> { FastVec::with_size(n, x).ok().map(FvEl) }
+    fn read_alt(&self, i: usize, variant: u64) -> Option<Option<u64>> { Some(fv_read_alt(&self.0, i, variant)) }
+    fn write_alt(&mut self, i: usize, x: El, variant: u64) -> R<El> { fv_write_alt(&mut self.0, i, x, variant) }
+    fn eq_probe(&self, k: u64) -> Option<Option<String>> { Some(fv_eq_probe(&self.0, k)) }
+    fn debug_ids(&self) -> Option<Vec<u64>> { Some(El::parse_debug(&format!("{:?}", self.0))) }
+    fn iter_ids(&self, variant: u64) -> Option<Vec<u64>> { Some(fv_iter_ids(&self.0, variant)) }
+    fn aux(&self) -> Option<String> { fv_aux(&self.0) }
+    fn capacity(&self) -> usize { self.0.capacity() }
 }
 
-impl<T: Elem + Clone + Copy + PartialEq> VecApi<T> for FastVec<T> {
+impl<T: Elem + Clone + Copy + PartialEq + std::fmt::Debug> VecApi<T> for FastVec<T> {
     fn create(cap: usize) -> Self { if cap == 0 { FastVec::new() } else { FastVec::with_capacity(cap).unwrap() } }
+    fn create_alt(cap: usize, alt: u64) -> Self { if alt == 1 { Default::default() } else { Self::create(cap) } }
     fn len(&self) -> usize { FastVec::len(self) }
     fn ids(&self) -> Vec<u64> { self.as_slice().iter().map(|x| x.id()).collect() }
     fn get(&self, i: usize) -> Option<u64> { self.as_slice().get(i).map(|x| x.id()) }
@@ -419,8 +649,16 @@ impl<T: Elem + Clone + Copy + PartialEq> VecApi<T> for FastVec<T> {
     fn fill_range(&mut self, a: usize, b: usize, x: T) -> R<T> { unit(self.fill_range_fast(a, b, x)) }
     fn copy_from(&mut self, xs: Vec<T>) -> R<T> { if risky_off() { R::Unsup } else { unit(self.copy_from_slice_fast(&xs)) } }
     fn ensure(&mut self, n: usize) -> R<T> { if risky_off() { R::Unsup } else { unit(self.ensure_capacity(n)) } }
+    fn resize_with(&mut self, n: usize, mk: &mut dyn FnMut() -> T) -> R<T> { unit(FastVec::resize_with(self, n, || mk())) }
+    fn with_size(n: usize, x: T) -> Option<Self> { FastVec::with_size(n, x).ok() }
+    fn read_alt(&self, i: usize, variant: u64) -> Option<Option<u64>> { Some(fv_read_alt(self, i, variant)) }
+    fn write_alt(&mut self, i: usize, x: T, variant: u64) -> R<T> { fv_write_alt(self, i, x, variant) }
+    fn eq_probe(&self, k: u64) -> Option<Option<String>> { Some(fv_eq_probe(self, k)) }
+    fn debug_ids(&self) -> Option<Vec<u64>> { let s = format!("{:?}", self); if T::COUNTED { Some(T::parse_debug(&s)) } else { None } }
+    fn iter_ids(&self, variant: u64) -> Option<Vec<u64>> { Some(fv_iter_ids(self, variant)) }
+    fn aux(&self) -> Option<String> { fv_aux(self) }
     fn capacity(&self) -> usize { FastVec::capacity(self) }
-    fn coq_cell() -> Option<&'static str> { Some(if std::mem::size_of::<T>() == 1 { "FastVec<u8>" } else { "FastVec<u64>" }) }
+    fn coq_cell() -> Option<&'static str> { match std::mem::size_of::<T>() { 1 => Some("FastVec<u8>"), 8 => Some("FastVec<u64>"), _ => None } }
     fn coq_head(cap0: usize, _cap_init: usize) -> String { format!("CVecC {} {}", std::mem::size_of::<T>(), cap0) }
     fn coq_op(code: u64, a: usize, b: usize, vals: &[u64], _cap_after: usize) -> Option<String> {
         Some(match code { 0 => format!("TC (CPush {})", vals[0]), 1 => "TC CPop".into(), 2 => format!("TC (CInsert {} {})", a, vals[0]), 3 => format!("TC (CRemove {})", a),
@@ -430,8 +668,42 @@ impl<T: Elem + Clone + Copy + PartialEq> VecApi<T> for FastVec<T> {
                           15 => format!("TC (CCopyFrom {})", nlist(vals)), 17 => format!("TC (CEnsure {})", a), _ => return None })
     }
 }
-impl<T: Elem + Clone> VecApi<T> for ValVec32<T> {
+
+// ----- ValVec32 -----
+fn vv_create_alt<T>(cap: usize, alt: u64) -> ValVec32<T> {
+    match alt { 1 => ValVec32::new(), 2 => Default::default(),
+                3 => { let pool = zipora::memory::SecureMemoryPool::new(zipora::memory::SecurePoolConfig::small_secure()).expect("secure pool");
+                       ValVec32::with_secure_pool(cap as u32, pool).unwrap() }
+                _ => ValVec32::with_capacity(cap as u32).unwrap() }
+}
+fn vv_read_alt<T: Elem>(v: &ValVec32<T>, i: usize, variant: u64) -> Option<u64> {
+    if i >= v.len() as usize { return if variant % 2 == 0 { v.as_slice().get(i).map(|x| x.id()) } else { v.iter().nth(i).map(|x| x.id()) }; }
+    Some(match variant % 5 { 0 => v[i].id(), 1 => v[i as u32].id(), 2 => v.as_slice()[i].id(), 3 => v.iter().nth(i).map(|x| x.id()).unwrap_or(u64::MAX),
+                             _ => v.into_iter().nth(i).map(|x| x.id()).unwrap_or(u64::MAX) })
+}
+fn vv_write_alt<T: Elem>(v: &mut ValVec32<T>, i: usize, x: T, variant: u64) -> R<T> {
+    if i >= v.len() as usize { return if v.get_mut(i as u32).is_none() && v.as_mut_slice().get_mut(i).is_none() { R::Refused } else { R::Unit }; }
+    match variant % 6 { 0 => v[i] = x, 1 => v[i as u32] = x, 2 => { if let Some(s) = v.get_mut(i as u32) { *s = x; } else { return R::Refused; } }
+                        3 => v.as_mut_slice()[i] = x, 4 => { if let Some(s) = v.iter_mut().nth(i) { *s = x; } }
+                        _ => { if let Some(s) = (&mut *v).into_iter().nth(i) { *s = x; } } }
+    R::Unit
+}
+fn vv_eq_probe<T: Elem + Clone + PartialEq>(v: &ValVec32<T>, k: u64) -> Option<String> {
+    eq_probe_generic::<ValVec32<T>, T>(v, v.len() as usize, k, |c| c.clone(), |c, i| c.get(i as u32).map(|x| x.id()).unwrap_or(u64::MAX),
+                                      |c, i, x| { let _ = c.set(i as u32, x); }, |c| { c.pop(); })
+}
+fn vv_iter_ids<T: Elem>(v: &ValVec32<T>, variant: u64) -> Vec<u64> {
+    match variant % 3 { 0 => v.iter().map(|x| x.id()).collect(), 1 => v.into_iter().map(|x| x.id()).collect(), _ => { let mut o = vec![]; for i in 0..v.len() { o.push(v[i].id()); } o } }
+}
+fn vv_aux<T>(v: &ValVec32<T>) -> Option<String> {
+    if v.len_usize() != v.len() as usize || v.capacity_usize() != v.capacity() as usize || v.is_empty() != (v.len() == 0) { return Some("len_usize / capacity_usize / is_empty disagree with len / capacity".into()); }
+    if v.capacity() < v.len() { return Some("capacity below length".into()); }
+    None
+}
+fn vv_push_unchecked<T>(v: &mut ValVec32<T>, x: T) -> R<T> { if v.len() < v.capacity() { unsafe { v.unchecked_push(x); } R::Unit } else { unit(v.push(x)) } }
+impl<T: Elem + Clone + PartialEq + std::fmt::Debug> VecApi<T> for ValVec32<T> {
     fn create(cap: usize) -> Self { ValVec32::with_capacity(cap as u32).unwrap() }
+    fn create_alt(cap: usize, alt: u64) -> Self { vv_create_alt(cap, alt) }
     fn len(&self) -> usize { ValVec32::len(self) as usize }
     fn ids(&self) -> Vec<u64> { self.iter().map(|x| x.id()).collect() }
     fn get(&self, i: usize) -> Option<u64> { ValVec32::get(self, i as u32).map(|x| x.id()) }
@@ -442,40 +714,60 @@ impl<T: Elem + Clone> VecApi<T> for ValVec32<T> {
     fn reserve(&mut self, n: usize) -> R<T> { unit(ValVec32::reserve(self, n as u32)) }
     fn clone_self(&self) -> Option<Self> { Some(self.clone()) }
     fn set(&mut self, i: usize, x: T) -> R<T> { unit(ValVec32::set(self, i as u32, x)) }
+    fn read_alt(&self, i: usize, variant: u64) -> Option<Option<u64>> { Some(vv_read_alt(self, i, variant)) }
+    fn write_alt(&mut self, i: usize, x: T, variant: u64) -> R<T> { vv_write_alt(self, i, x, variant) }
+    fn eq_probe(&self, k: u64) -> Option<Option<String>> { Some(vv_eq_probe(self, k)) }
+    fn debug_ids(&self) -> Option<Vec<u64>> { let s = format!("{:?}", self); if T::COUNTED { Some(T::parse_debug(&s)) } else { None } }
+    fn iter_ids(&self, variant: u64) -> Option<Vec<u64>> { Some(vv_iter_ids(self, variant)) }
+    fn push_unchecked(&mut self, x: T) -> R<T> { vv_push_unchecked(self, x) }
+    fn aux(&self) -> Option<String> { vv_aux(self) }
     fn capacity(&self) -> usize { ValVec32::capacity(self) as usize }
-    fn coq_cell() -> Option<&'static str> { Some(if T::COUNTED { "ValVec32<El>" } else { "ValVec32<T: Copy>" }) }
+    fn coq_cell() -> Option<&'static str> { if T::COUNTED { Some("ValVec32<El>") } else { None } }
     fn coq_head(cap0: usize, cap_init: usize) -> String { format!("CVV {} {} {}", coq_bool(T::COUNTED), cap0, cap_init) }
     fn coq_op(code: u64, a: usize, _b: usize, vals: &[u64], cap_after: usize) -> Option<String> {
-        Some(match code { 0 => format!("TW (WPush {})", vals[0]), 1 => "TW WPop".into(), 5 => "TW WClear".into(), 7 => format!("TW (WExtend {})", nlist(vals)),
+        Some(match code { 0 | 25 => format!("TW (WPush {})", vals[0]), 1 => "TW WPop".into(), 5 => "TW WClear".into(), 7 => format!("TW (WExtend {})", nlist(vals)),
                           8 => format!("TW (WReserve {})", a), 9 => format!("TW (WGet {})", a), 10 => format!("TWClone {}", cap_after),
                           11 => format!("TW (WSet {} {})", a, vals[0]), _ => return None })
     }
 }
-struct VV64(ValVec32<u64>);
-impl VecApi<u64> for VV64 {
-    fn create(cap: usize) -> Self { VV64(ValVec32::with_capacity(cap as u32).unwrap()) }
+/// ValVec32 through its Copy-only entry points (push_panic, extend_from_slice_copy, push_n_copy, unchecked_push_copy)
+struct VVC<T>(ValVec32<T>);
+impl<T: Elem + Copy + PartialEq + std::fmt::Debug> VecApi<T> for VVC<T> {
+    fn create(cap: usize) -> Self { VVC(ValVec32::with_capacity(cap as u32).unwrap()) }
+    fn create_alt(cap: usize, alt: u64) -> Self { VVC(vv_create_alt(cap, alt)) }
     fn len(&self) -> usize { self.0.len() as usize }
-    fn ids(&self) -> Vec<u64> { self.0.as_slice().to_vec() }
-    fn get(&self, i: usize) -> Option<u64> { self.0.get(i as u32).copied() }
-    fn push(&mut self, x: u64) -> R<u64> { self.0.push_panic(x); R::Unit }
-    fn pop(&mut self) -> R<u64> { R::Val(self.0.pop()) }
-    fn clear(&mut self) -> R<u64> { self.0.clear(); R::Unit }
-    fn extend(&mut self, xs: Vec<u64>) -> R<u64> { unit(self.0.extend_from_slice_copy(&xs)) }
-    fn reserve(&mut self, n: usize) -> R<u64> { unit(self.0.reserve(n as u32)) }
-    fn clone_self(&self) -> Option<Self> { Some(VV64(self.0.clone())) }
-    fn set(&mut self, i: usize, x: u64) -> R<u64> { unit(self.0.set(i as u32, x)) }
-    fn push_n(&mut self, k: usize, x: u64) -> R<u64> { unit(self.0.push_n_copy(k as u32, x)) }
+    fn ids(&self) -> Vec<u64> { self.0.as_slice().iter().map(|x| x.id()).collect() }
+    fn get(&self, i: usize) -> Option<u64> { self.0.get(i as u32).map(|x| x.id()) }
+    fn push(&mut self, x: T) -> R<T> { self.0.push_panic(x); R::Unit }
+    fn pop(&mut self) -> R<T> { R::Val(self.0.pop()) }
+    fn clear(&mut self) -> R<T> { self.0.clear(); R::Unit }
+    fn extend(&mut self, xs: Vec<T>) -> R<T> { unit(self.0.extend_from_slice_copy(&xs)) }
+    fn reserve(&mut self, n: usize) -> R<T> { unit(self.0.reserve(n as u32)) }
+    fn clone_self(&self) -> Option<Self> { Some(VVC(self.0.clone())) }
+    fn set(&mut self, i: usize, x: T) -> R<T> { unit(self.0.set(i as u32, x)) }
+    fn push_n(&mut self, k: usize, x: T) -> R<T> { unit(self.0.push_n_copy(k as u32, x)) }
+    fn read_alt(&self, i: usize, variant: u64) -> Option<Option<u64>> { Some(vv_read_alt(&self.0, i, variant)) }
+    fn write_alt(&mut self, i: usize, x: T, variant: u64) -> R<T> { vv_write_alt(&mut self.0, i, x, variant) }
+    fn eq_probe(&self, k: u64) -> Option<Option<String>> { Some(vv_eq_probe(&self.0, k)) }
+    fn debug_ids(&self) -> Option<Vec<u64>> { let _ = format!("{:?}", self.0); None }
+    fn iter_ids(&self, variant: u64) -> Option<Vec<u64>> { Some(vv_iter_ids(&self.0, variant)) }
+    fn push_unchecked(&mut self, x: T) -> R<T> { if self.0.len() < self.0.capacity() { unsafe { self.0.unchecked_push_copy(x); } R::Unit } else { self.0.push_panic(x); R::Unit } }
+    fn aux(&self) -> Option<String> { vv_aux(&self.0) }
     fn capacity(&self) -> usize { self.0.capacity() as usize }
-    fn coq_cell() -> Option<&'static str> { Some("ValVec32<u64>") }
+    fn coq_cell() -> Option<&'static str> { if std::mem::size_of::<T>() == 8 { Some("ValVec32<u64>") } else { None } }
     fn coq_head(cap0: usize, cap_init: usize) -> String { format!("CVV false {} {}", cap0, cap_init) }
     fn coq_op(code: u64, a: usize, _b: usize, vals: &[u64], cap_after: usize) -> Option<String> {
-        Some(match code { 0 => format!("TW (WPushPanic {})", vals[0]), 1 => "TW WPop".into(), 5 => "TW WClear".into(), 7 => format!("TW (WExtendCopy {})", nlist(vals)),
+        Some(match code { 0 | 25 => format!("TW (WPushPanic {})", vals[0]), 1 => "TW WPop".into(), 5 => "TW WClear".into(), 7 => format!("TW (WExtendCopy {})", nlist(vals)),
                           8 => format!("TW (WReserve {})", a), 9 => format!("TW (WGet {})", a), 10 => format!("TWClone {}", cap_after),
                           11 => format!("TW (WSet {} {})", a, vals[0]), 16 => format!("TW (WPushN {} {})", a.min(200), vals[0]), _ => return None })
     }
 }
+type VV64 = VVC<u64>;
+
+// ----- memory::cache::CacheAlignedVec -----
 impl<T: Elem> VecApi<T> for CacheAlignedVec<T> {
     fn create(cap: usize) -> Self { if cap == 0 { CacheAlignedVec::new() } else { CacheAlignedVec::with_capacity(cap).unwrap() } }
+    fn create_alt(cap: usize, alt: u64) -> Self { match alt { 1 => CacheAlignedVec::with_numa_node(0), 2 => Default::default(), _ => Self::create(cap) } }
     fn len(&self) -> usize { CacheAlignedVec::len(self) }
     fn ids(&self) -> Vec<u64> { self.as_slice().iter().map(|x| x.id()).collect() }
     fn get(&self, i: usize) -> Option<u64> { CacheAlignedVec::get(self, i).map(|x| x.id()) }
@@ -484,18 +776,33 @@ impl<T: Elem> VecApi<T> for CacheAlignedVec<T> {
     fn clear(&mut self) -> R<T> { CacheAlignedVec::clear(self); R::Unit }
     fn reserve(&mut self, n: usize) -> R<T> { unit(CacheAlignedVec::reserve(self, n)) }
     fn truncate(&mut self, n: usize) -> R<T> { CacheAlignedVec::truncate(self, n); R::Unit }
+    fn read_alt(&self, i: usize, _variant: u64) -> Option<Option<u64>> { Some(self.as_slice().get(i).map(|x| x.id())) }
+    fn write_alt(&mut self, i: usize, x: T, variant: u64) -> R<T> {
+        if variant % 2 == 0 { match self.get_mut(i) { Some(s) => { *s = x; R::Unit } None => R::Refused } }
+        else { match self.as_mut_slice().get_mut(i) { Some(s) => { *s = x; R::Unit } None => R::Refused } } }
+    fn aux(&self) -> Option<String> { if self.is_empty() != (CacheAlignedVec::len(self) == 0) || CacheAlignedVec::capacity(self) < CacheAlignedVec::len(self) { Some("is_empty / capacity disagree with len".into()) } else { None } }
+    fn capacity(&self) -> usize { CacheAlignedVec::capacity(self) }
 }
 struct Layout64(zipora::memory::cache_layout::CacheAlignedVec<u64>);
 impl VecApi<u64> for Layout64 {
     fn create(cap: usize) -> Self {
         use zipora::memory::cache_layout::AccessPattern as P;
+        if cap % 7 == 5 { return Layout64(zipora::memory::cache_layout::CacheAlignedVec::new()); }
+        if cap % 7 == 6 { return Layout64(Default::default()); }
         let p = [P::Sequential, P::Random, P::WriteHeavy, P::ReadHeavy, P::Mixed][cap % 5];
         Layout64(zipora::memory::cache_layout::CacheAlignedVec::with_access_pattern(p)) }
     fn len(&self) -> usize { self.0.len() }
     fn ids(&self) -> Vec<u64> { self.0.as_slice().to_vec() }
     fn get(&self, i: usize) -> Option<u64> { self.0.get(i).copied() }
     fn push(&mut self, x: u64) -> R<u64> { self.0.push(x); R::Unit }
+    /// slice(range): the range ending one past `i`, of length 1, (variant mod 4) or everything
+    fn read_alt(&self, i: usize, variant: u64) -> Option<Option<u64>> {
+        let w = match variant % 3 { 0 => 1, 1 => (variant as usize % 4 + 1).min(i + 1), _ => i + 1 };
+        Some(self.0.slice(i + 1 - w..i + 1).and_then(|s| s.last().copied())) }
+    fn aux(&self) -> Option<String> { if self.0.is_empty() != (self.0.len() == 0) { Some("is_empty() disagrees with len()".into()) } else { None } }
 }
+
+// ----- BumpVec -----
 struct Bump(BumpVec<'static, El>, usize);
 impl VecApi<El> for Bump {
     fn create(cap: usize) -> Self {
@@ -508,69 +815,154 @@ impl VecApi<El> for Bump {
     fn get(&self, i: usize) -> Option<u64> { self.0.as_slice().get(i).map(|x| x.id) }
     fn push(&mut self, x: El) -> R<El> { unit(self.0.push(x)) }
     fn pop(&mut self) -> R<El> { R::Val(self.0.pop()) }
+    fn write_alt(&mut self, i: usize, x: El, _variant: u64) -> R<El> { match self.0.as_mut_slice().get_mut(i) { Some(s) => { *s = x; R::Unit } None => R::Refused } }
+    fn aux(&self) -> Option<String> { if self.0.capacity() != self.1 || self.0.is_empty() != (self.0.len() == 0) { Some(format!("capacity() = {} for a BumpVec of capacity {}", self.0.capacity(), self.1)) } else { None } }
+    fn capacity(&self) -> usize { self.0.capacity() }
 }
-struct Mm(MmapVec<u64>, std::path::PathBuf);
-impl Drop for Mm { fn drop(&mut self) { let _ = std::fs::remove_file(&self.1); } }
+
+// ----- MmapVec -----
+struct Mm<T: Copy + 'static> { v: Option<MmapVec<T>>, path: std::path::PathBuf, cfg: MmapVecConfig, temp: bool }
+impl<T: Copy + 'static> Drop for Mm<T> { fn drop(&mut self) { self.v = None; let _ = std::fs::remove_file(&self.path); } }
 thread_local! { static MM_N: RefCell<u64> = RefCell::new(0); }
 fn mm_path() -> std::path::PathBuf {
     let n = MM_N.with(|c| { *c.borrow_mut() += 1; *c.borrow() });
-    std::env::temp_dir().join(format!("zv_c10_{}_{}.dat", std::process::id(), n))
+    mm_dir().join(format!("zv_c10_{}_{}.dat", std::process::id(), n))
 }
-impl VecApi<u64> for Mm {
-    fn create(cap: usize) -> Self { let p = mm_path();
-        Mm(MmapVec::create(&p, MmapVecConfig::builder().with_initial_capacity(cap).build()).unwrap(), p) }
-    fn len(&self) -> usize { self.0.len() }
-    fn ids(&self) -> Vec<u64> { self.0.as_slice().to_vec() }
-    fn get(&self, i: usize) -> Option<u64> { self.0.get(i).copied() }
-    fn push(&mut self, x: u64) -> R<u64> { unit(self.0.push(x)) }
-    fn pop(&mut self) -> R<u64> { R::Val(self.0.pop()) }
-    fn resize(&mut self, n: usize, x: u64) -> R<u64> { unit(self.0.resize(n, x)) }
-    fn clear(&mut self) -> R<u64> { unit(self.0.clear()) }
-    fn shrink(&mut self) -> R<u64> { unit(self.0.shrink_to_fit()) }
-    fn extend(&mut self, xs: Vec<u64>) -> R<u64> { if xs.len() % 2 == 0 { unit(self.0.extend(xs)) } else { unit(self.0.push_bulk_simd(&xs)) } }
-    fn reserve(&mut self, n: usize) -> R<u64> { unit(self.0.reserve(n)) }
-    fn truncate(&mut self, n: usize) -> R<u64> { unit(self.0.truncate(n)) }
-    fn fill_range(&mut self, a: usize, b: usize, x: u64) -> R<u64> { unit(self.0.fill_range_simd(a..b, x)) }
-    fn pop_bulk(&mut self, k: usize) -> R<u64> { match self.0.pop_bulk_simd(k) { Ok(v) => R::List(v), Err(_) => R::Refused } }
-    fn copy_from(&mut self, xs: Vec<u64>) -> R<u64> {
+/// where the backing files of the MmapVec cells live: a memory file system if there is one (every growth of an MmapVec
+/// rewrites and fsyncs its file; what reaches the disk is C19's subject, not this property's)
+fn mm_dir() -> std::path::PathBuf {
+    let shm = std::path::Path::new("/dev/shm");
+    if shm.is_dir() && std::fs::metadata(shm).map(|m| !m.permissions().readonly()).unwrap_or(false) { shm.to_path_buf() } else { std::env::temp_dir() }
+}
+/// "ctor" of the MmapVec cells: 0 builder with the initial capacity of the case, 1..5 the presets (persistent_cache with a
+/// small initial capacity so that its sync-on-write stays cheap), 6/7/11 growth factors 1.0 / 3.0 / 0.5, 8 with_capacity_simd,
+/// 9 every builder switch on, 10 Default, 12 persistent_cache as it is
+fn mm_config(cap: usize, alt: u64) -> MmapVecConfig {
+    match alt {
+        1 => MmapVecConfig::performance_optimized(), 2 => MmapVecConfig::memory_optimized(), 3 => MmapVecConfig::realtime(),
+        4 => MmapVecConfig { initial_capacity: cap.max(1), ..MmapVecConfig::persistent_cache() }, 5 => MmapVecConfig::large_dataset(),
+        6 => MmapVecConfig::builder().with_initial_capacity(cap).with_growth_factor(1.0).build(),
+        7 => MmapVecConfig::builder().with_initial_capacity(cap).with_growth_factor(3.0).build(),
+        9 => MmapVecConfigBuilder::default().with_initial_capacity(cap).with_sync_on_write(true).with_populate_pages(true).with_huge_pages(true).with_read_only(false).build(),
+        10 => MmapVecConfig::default(),
+        11 => MmapVecConfigBuilder::new().with_initial_capacity(cap).with_growth_factor(0.5).build(),
+        12 => MmapVecConfig::persistent_cache(),
+        _ => MmapVecConfig::builder().with_initial_capacity(cap).build(),
+    }
+}
+impl<T: Copy + 'static> Mm<T> {
+    fn r(&self) -> &MmapVec<T> { self.v.as_ref().expect("mmap vec") }
+    fn m(&mut self) -> &mut MmapVec<T> { self.v.as_mut().expect("mmap vec") }
+    fn scratch(xs: &[T]) -> Option<Mm<T>> {
         let p = mm_path();
-        let r = (|| { let mut o = MmapVec::<u64>::create(&p, MmapVecConfig::builder().with_initial_capacity(1).build()).ok()?;
-                      o.extend(xs).ok()?; self.0.copy_from_simd(&o).ok() })();
-        let _ = std::fs::remove_file(&p);
-        if r.is_some() { R::Unit } else { R::Refused } }
+        let mut o = MmapVec::<T>::create(&p, MmapVecConfig::builder().with_initial_capacity(1).build()).ok()?;
+        if xs.len() % 2 == 0 { o.extend(xs.iter().copied()).ok()?; } else { o.push_bulk_simd(xs).ok()?; }
+        Some(Mm { v: Some(o), path: p, cfg: MmapVecConfig::default(), temp: false })
+    }
+}
+impl<T: Elem + Copy + PartialEq + 'static> VecApi<T> for Mm<T> {
+    fn create(cap: usize) -> Self { Self::create_alt(cap, 0) }
+    fn create_alt(cap: usize, alt: u64) -> Self {
+        if alt == 8 { let v = MmapVec::<T>::with_capacity_simd(cap).unwrap(); let p = v.path().to_path_buf(); return Mm { v: Some(v), path: p, cfg: MmapVecConfig::default(), temp: true }; }
+        let p = mm_path(); let cfg = mm_config(cap, alt);
+        Mm { v: Some(MmapVec::create(&p, cfg.clone()).unwrap()), path: p, cfg, temp: false } }
+    fn len(&self) -> usize { self.r().len() }
+    fn ids(&self) -> Vec<u64> { self.r().as_slice().iter().map(|x| x.id()).collect() }
+    fn get(&self, i: usize) -> Option<u64> { self.r().get(i).map(|x| x.id()) }
+    fn push(&mut self, x: T) -> R<T> { unit(self.m().push(x)) }
+    fn pop(&mut self) -> R<T> { R::Val(self.m().pop()) }
+    fn resize(&mut self, n: usize, x: T) -> R<T> { unit(self.m().resize(n, x)) }
+    fn clear(&mut self) -> R<T> { unit(self.m().clear()) }
+    fn shrink(&mut self) -> R<T> { unit(self.m().shrink_to_fit()) }
+    fn extend(&mut self, xs: Vec<T>) -> R<T> {
+        // extend with an exact size hint, extend with none (no reservation up front), push_bulk_simd
+        match xs.len() % 4 { 0 => unit(self.m().extend(xs)), 2 => unit(self.m().extend(xs.into_iter().filter(|_| true))), _ => unit(self.m().push_bulk_simd(&xs)) } }
+    fn reserve(&mut self, n: usize) -> R<T> { unit(self.m().reserve(n)) }
+    fn truncate(&mut self, n: usize) -> R<T> { unit(self.m().truncate(n)) }
+    fn fill_range(&mut self, a: usize, b: usize, x: T) -> R<T> { unit(self.m().fill_range_simd(a..b, x)) }
+    fn pop_bulk(&mut self, k: usize) -> R<T> { match self.m().pop_bulk_simd(k) { Ok(v) => R::List(v), Err(_) => R::Refused } }
+    fn copy_from(&mut self, xs: Vec<T>) -> R<T> {
+        match Mm::<T>::scratch(&xs) { Some(o) => unit(self.m().copy_from_simd(o.r())), None => R::Refused } }
+    fn read_alt(&self, i: usize, variant: u64) -> Option<Option<u64>> {
+        Some(match variant % 3 { 0 => self.r().as_slice().get(i).map(|x| x.id()),
+                                 1 => { let it = self.r().into_iter(); if it.len() != self.r().len() { return Some(Some(u64::MAX)); } let mut it = it; it.nth(i).map(|x| x.id()) }
+                                 _ => self.r().into_iter().skip(i).next().map(|x| x.id()) }) }
+    fn write_alt(&mut self, i: usize, x: T, variant: u64) -> R<T> {
+        if variant % 2 == 0 { match self.m().get_mut(i) { Some(s) => { *s = x; R::Unit } None => R::Refused } }
+        else { match self.m().as_mut_slice().get_mut(i) { Some(s) => { *s = x; R::Unit } None => R::Refused } } }
+    /// compare_range_simd: a range of this vector against a second vector that starts with the same elements, with one
+    /// of them changed, that is too short; and a range that ends beyond the length
+    fn eq_probe(&self, k: u64) -> Option<Option<String>> {
+        let v = self.r(); let n = v.len(); let all = v.as_slice().to_vec();
+        let a = (k as usize) % (n + 1); let b = a + ((k / 7) as usize) % (n - a + 1);
+        let mut other: Vec<T> = all[a..b].to_vec(); other.extend(all.iter().take((k % 3) as usize).copied());
+        let o = match Mm::<T>::scratch(&other) { Some(o) => o, None => return Some(Some("cannot build the vector to compare with".into())) };
+        match v.compare_range_simd(a..b, o.r()) { Ok(true) => {}, r => return Some(Some(format!("compare_range_simd({}..{}) against the same {} elements = {:?}", a, b, b - a, r.ok()))) }
+        if v.compare_range_simd(a..n + 1, o.r()).is_ok() { return Some(Some(format!("compare_range_simd with a range ending at {} accepted with len {}", n + 1, n))); }
+        if b > a && T::DISTINCT {
+            for pos in [0, (b - a) / 2, b - a - 1, ((k / 3) as usize) % (b - a)] {
+                let mut ch = other.clone(); ch[pos] = T::other_than(ch[pos].id());
+                let o2 = match Mm::<T>::scratch(&ch) { Some(o) => o, None => return Some(Some("cannot build the vector to compare with".into())) };
+                match v.compare_range_simd(a..b, o2.r()) { Ok(false) => {}, r => return Some(Some(format!("compare_range_simd({}..{}) = {:?} against elements that differ at offset {}", a, b, r.ok(), pos))) }
+            }
+            let short = match Mm::<T>::scratch(&all[a..b - 1]) { Some(o) => o, None => return Some(None) };
+            if let Ok(true) = v.compare_range_simd(a..b, short.r()) { return Some(Some(format!("compare_range_simd({}..{}) = true against a vector of {} elements", a, b, b - a - 1))); }
+        }
+        Some(None) }
+    fn iter_ids(&self, variant: u64) -> Option<Vec<u64>> {
+        Some(if variant % 2 == 0 { self.r().into_iter().map(|x| x.id()).collect() } else { let mut o = vec![]; for x in self.r() { o.push(x.id()); } o }) }
+    fn reopen(&mut self) -> R<T> {
+        if self.temp { return R::Unsup; }
+        if self.m().sync().is_err() { return R::Refused; }
+        self.v = None;
+        match MmapVec::<T>::open(&self.path, self.cfg.clone()) { Ok(v) => { self.v = Some(v); R::Unit }
+            Err(_) => { self.v = MmapVec::create(&self.path, self.cfg.clone()).ok(); R::Refused } } }
+    fn aux(&self) -> Option<String> {
+        let v = self.r(); let st = v.stats();
+        if v.is_empty() != (v.len() == 0) || st.len != v.len() || st.capacity != v.capacity() || v.capacity() < v.len() { return Some(format!("len {} / capacity {} / is_empty / stats disagree", v.len(), v.capacity())); }
+        None }
+    fn capacity(&self) -> usize { self.r().capacity() }
 }
 
-fn generic_history<T: Elem, V: VecApi<T>>(cx: &mut Ctx, cell: &str, tag: &str, cap0: u64, ops: &[Vec<u64>], coq: Coq) {
-    cx.sum.eval(cell, &format!("{} {} {:?}", tag, cap0, ops), ops.len() >= 3);
+fn generic_history<T: Elem, V: VecApi<T>>(cx: &mut Ctx, cell: &str, tag: &str, cap0: u64, opt: (u64, bool), ops: &[Vec<u64>], coq: Coq) {
+    let (alt, big) = opt;
+    cx.sum.eval(cell, &format!("{} {} {:?} {:?}", tag, cap0, opt, ops), ops.len() >= 3);
     cx.sum.cell_status(cell, if V::coq_cell().is_some() { "M+S" } else { "S-only" });
-    let cj = json!({"cell": tag, "cap": cap0, "ops": ops});
+    let mut cj = json!({"cell": tag, "cap": cap0, "ops": ops});
+    if alt != 0 { cj["ctor"] = json!(alt); }
+    if big { cj["big"] = json!(true); }
+    if journal(&cj) { return; }
+    // amounts and indices: small histories stay small whatever the case says; "big" cases carry sizes up to 2^21 as numbers
+    let lim: usize = if big { 1 << 21 } else { 400 };
+    let lim_k: usize = if big { 1 << 21 } else { 200 };
     reset_counters();
     let mut next_id: u64 = 0;
-    let mut v = match guarded(|| V::create(cap0 as usize)) { Ok(v) => v, Err(p) => { cx.sum.fail(cell, None, cj, &format!("constructor panicked: {}", p)); return; } };
+    let mut v = match guarded(|| V::create_alt(cap0 as usize, alt)) { Ok(v) => v, Err(p) => { cx.sum.fail(cell, None, cj, &format!("constructor panicked: {}", p)); return; } };
     let cap_init = v.capacity();
     let mut shadow: Vec<u64> = vec![];
     let mut failed = false;
-    // the history as the mechanism model sees it (M+S cells only)
-    let mut coq_ok = V::coq_cell().is_some();
+    // the history as the mechanism model sees it (M+S cells only; the other constructors are outside the model)
+    let mut coq_ok = V::coq_cell().is_some() && alt == 0 && !big;
     let mut coq_ops: Vec<String> = vec![];
     let mut expect: Vec<String> = vec![];
     for o in ops {
         let code = op_arg(o, 0);
-        let a = op_arg(o, 1).min(400) as usize;
-        let b = op_arg(o, 2).min(400) as usize;
+        let a = (op_arg(o, 1) as usize).min(lim);
+        let b = (op_arg(o, 2) as usize).min(lim);
         let mut problem: Option<String> = None;
         let mut fresh = || { let id = next_id; next_id += 1; id };
         let mut vals: Vec<u64> = vec![];        // values created for this operation
         let mut ret: Vec<i128> = vec![];        // the return value in the encoding of Model.enc_ret ([] = not supported)
         let mut drops_o: Option<Vec<u64>> = None; // destructors run by the operation itself
+        let mut replaced: Option<V> = None;
         take_drops();
         let r = guarded(|| {
             macro_rules! expect_unit { ($r:expr, $what:expr, $then:expr) => {{ let r = $r; drops_o = Some(take_drops()); ret = enc_r(&r);
                 match r { R::Unsup => {}, R::Unit => { $then; }, _ => problem = Some(format!("{} refused", $what)) } }} }
             match code {
-                0 => { let id = fresh(); let x = T::make(id); let idv = x.id(); vals.push(idv);
+                0 | 25 => { let id = fresh(); let x = T::make(id); let idv = x.id(); vals.push(idv);
                        let full = v.fixed_capacity().map(|c| shadow.len() >= c).unwrap_or(false);
-                       let r = v.push(x); drops_o = Some(take_drops()); ret = enc_r(&r);
+                       let r = if code == 0 { v.push(x) } else { v.push_unchecked(x) }; drops_o = Some(take_drops()); ret = enc_r(&r);
                        match r { R::Unsup => {}, R::Unit => { if full { problem = Some("push beyond the fixed capacity accepted".into()); } shadow.push(idv); }
                                  _ => if !full { problem = Some("push refused".into()); } } }
                 1 => { let r = v.pop(); drops_o = Some(take_drops()); ret = enc_r(&r);
@@ -585,11 +977,11 @@ fn generic_history<T: Elem, V: VecApi<T>>(cx: &mut Ctx, cell: &str, tag: &str, c
                 4 => { let id = fresh(); let x = T::make(id); let idv = x.id(); vals.push(idv); expect_unit!(v.resize(a, x), "resize", shadow.resize(a, idv)) }
                 5 => expect_unit!(v.clear(), "clear", shadow.clear()),
                 6 => expect_unit!(v.shrink(), "shrink_to_fit", ()),
-                7 => { let k = a.min(200); let xs: Vec<T> = (0..k).map(|_| T::make(fresh())).collect(); let idv: Vec<u64> = xs.iter().map(|x| x.id()).collect(); vals = idv.clone();
+                7 => { let k = a.min(lim_k); let xs: Vec<T> = (0..k).map(|_| T::make(fresh())).collect(); let idv: Vec<u64> = xs.iter().map(|x| x.id()).collect(); vals = idv.clone();
                        expect_unit!(v.extend(xs), "extend", shadow.extend(idv)) }
                 8 => expect_unit!(v.reserve(a), "reserve", ()),
                 9 => { let g = v.get(a); ret = enc_opt(g); if g != shadow.get(a).copied() { problem = Some(format!("get({}) = {:?}, a Vec has {:?}", a, g, shadow.get(a))); } }
-                10 => { if let Some(c) = v.clone_self() { let old = std::mem::replace(&mut v, c); drop(old); ret = vec![0]; } }
+                10 => { if let Some(c) = v.clone_self() { replaced = Some(c); ret = vec![0]; } }
                 11 => { let id = fresh(); let x = T::make(id); let idv = x.id(); vals.push(idv);
                         let r = v.set(a, x); drops_o = Some(take_drops()); ret = enc_r(&r);
                         match r { R::Unsup => {}, R::Unit => { if a >= shadow.len() { problem = Some(format!("set({}) accepted with len {}", a, shadow.len())); } else { shadow[a] = idv; } }
@@ -601,29 +993,45 @@ fn generic_history<T: Elem, V: VecApi<T>>(cx: &mut Ctx, cell: &str, tag: &str, c
                                   _ => if a <= b && b <= shadow.len() { problem = Some(format!("fill_range({}, {}) refused with len {}", a, b, shadow.len())); } } }
                 14 => { let r = v.pop_bulk(a); drops_o = Some(take_drops()); ret = enc_r(&r);
                         match r { R::Unsup => {}, R::List(g) => { let g: Vec<u64> = g.iter().map(|x| x.id()).collect();
-                                                if a > shadow.len() { problem = Some(format!("pop_bulk({}) accepted with len {}", a, shadow.len())); } else { let w = shadow.split_off(shadow.len() - a); if g != w { problem = Some(format!("pop_bulk({}) returned {:?}, the tail of a Vec is {:?}", a, g, w)); } } }
+                                                if a > shadow.len() { problem = Some(format!("pop_bulk({}) accepted with len {}", a, shadow.len())); } else { let w = shadow.split_off(shadow.len() - a); if g != w { problem = Some(format!("pop_bulk({}) returned {:?}, the tail of a Vec is {:?}", a, &g[..g.len().min(12)], &w[..w.len().min(12)])); } } }
                                   _ => if a <= shadow.len() { problem = Some(format!("pop_bulk({}) refused with len {}", a, shadow.len())); } } }
-                15 => { let k = a.min(200); let xs: Vec<T> = (0..k).map(|_| T::make(fresh())).collect(); let idv: Vec<u64> = xs.iter().map(|x| x.id()).collect(); vals = idv.clone();
+                15 => { let k = a.min(lim_k); let xs: Vec<T> = (0..k).map(|_| T::make(fresh())).collect(); let idv: Vec<u64> = xs.iter().map(|x| x.id()).collect(); vals = idv.clone();
                         expect_unit!(v.copy_from(xs), "copy_from", shadow = idv) }
+                16 => { let k = a.min(lim_k); let id = fresh(); let x = T::make(id); let idv = x.id(); vals.push(idv);
+                        expect_unit!(v.push_n(k, x), "push_n", shadow.extend(std::iter::repeat(idv).take(k))) }
                 17 => expect_unit!(v.ensure(a), "ensure_capacity", ()),
                 18 => { let mut made: Vec<u64> = vec![];
                         let r = v.resize_with(a, &mut || { let x = T::make(fresh()); made.push(x.id()); x });
                         expect_unit!(r, "resize_with", { if a <= shadow.len() { shadow.truncate(a); } else { shadow.extend(made.iter().copied()); } }) }
-                _ => { let k = a.min(200); let id = fresh(); let x = T::make(id); let idv = x.id(); vals.push(idv);
-                       expect_unit!(v.push_n(k, x), "push_n", shadow.extend(std::iter::repeat(idv).take(k))) }
+                19 => { let k = a.min(lim_k); let id = fresh(); let x = T::make(id); let idv = x.id();
+                        if let Some(c) = V::with_size(k, x) { replaced = Some(c); shadow = vec![idv; k]; } }
+                20 => { if let Some(g) = v.read_alt(a, op_arg(o, 2)) { if g != shadow.get(a).copied() { problem = Some(format!("element {} read through accessor {} = {:?}, a Vec has {:?}", a, op_arg(o, 2), g, shadow.get(a))); } } }
+                21 => { let id = fresh(); let x = T::make(id); let idv = x.id();
+                        match v.write_alt(a, x, op_arg(o, 2)) { R::Unsup => {}, R::Unit => { if a >= shadow.len() { problem = Some(format!("write at {} through accessor {} accepted with len {}", a, op_arg(o, 2), shadow.len())); } else { shadow[a] = idv; } }
+                                                                 _ => if a < shadow.len() { problem = Some(format!("write at {} through accessor {} refused with len {}", a, op_arg(o, 2), shadow.len())); } } }
+                22 => { if let Some(Some(d)) = v.eq_probe(op_arg(o, 1)) { problem = Some(d); } }
+                23 => { if let Some(g) = v.debug_ids() { if g != shadow { problem = Some(format!("Debug shows {:?}, a Vec holds {:?}", &g[..g.len().min(12)], &shadow[..shadow.len().min(12)])); } } }
+                24 => { if let Some(g) = v.iter_ids(op_arg(o, 1)) { if g != shadow { problem = Some(format!("iterator {} yields {} elements {:?}, a Vec holds {} {:?}", op_arg(o, 1), g.len(), &g[..g.len().min(12)], shadow.len(), &shadow[..shadow.len().min(12)])); } } }
+                26 => { for _ in 0..a.min(lim_k) { let x = T::make(fresh()); let idv = x.id();
+                            match v.push(x) { R::Unit => shadow.push(idv), R::Unsup => break, _ => { problem = Some(format!("push #{} of a run refused", shadow.len())); break; } } } }
+                27 => expect_unit!(v.reopen(), "sync + open", ()),
+                _ => {}
             }
         });
+        if let Some(c) = replaced { let old = std::mem::replace(&mut v, c); if let Err(p) = guarded(move || drop(old)) { problem = Some(format!("Drop of the replaced vector panicked: {}", p)); } }
         let late = take_drops(); let mut drops = drops_o.unwrap_or(late); drops.sort();
         if let Err(p) = r { cx.sum.fail(cell, None, cj.clone(), &format!("op {:?} panicked: {}", o, p)); failed = true; break; }
-        if problem.is_none() { match guarded(|| (v.len(), v.ids(), v.get(shadow.len()), v.get(shadow.len() + 9))) {
+        if problem.is_none() { match guarded(|| (v.len(), v.ids(), v.get(shadow.len()), v.get(shadow.len() + 9), v.aux())) {
             Err(p) => problem = Some(format!("reading back panicked: {}", p)),
-            Ok((n, got, past, past9)) => { if n != shadow.len() || got != shadow { problem = Some(format!("holds {:?} (len {}), a Vec holds {:?}", &got[..got.len().min(12)], n, &shadow[..shadow.len().min(12)])); }
-                                           else if past.is_some() || past9.is_some() { problem = Some("an index past the end was not refused".into()); } } } }
+            Ok((n, got, past, past9, aux)) => { if n != shadow.len() || got != shadow { let d = got.iter().zip(shadow.iter()).position(|(x, y)| x != y).unwrap_or(got.len().min(shadow.len())); let lo = d.saturating_sub(2);
+                                                    problem = Some(format!("holds {:?} (len {}), a Vec holds {:?} (len {}) - from index {}", &got[lo.min(got.len())..(lo + 10).min(got.len())], n, &shadow[lo.min(shadow.len())..(lo + 10).min(shadow.len())], shadow.len(), lo)); }
+                                           else if past.is_some() || past9.is_some() { problem = Some("an index past the end was not refused".into()); }
+                                           else if let Some(d) = aux { problem = Some(d); } } } }
         if problem.is_none() && T::COUNTED { problem = live_mismatch(shadow.iter(), next_id); }
         if let Some(p) = problem { cx.sum.fail(cell, None, cj.clone(), &format!("after op {:?}: {}", o, p)); failed = true; break; }
-        if coq_ok {
+        if coq_ok && !matches!(code, 20 | 22 | 23 | 24) {   // observations through secondary accessors leave the model state alone
             let cap_now = v.capacity();
-            match (ret.is_empty(), V::coq_op(code.min(17), a, b, &vals, cap_now)) {
+            match (ret.is_empty(), V::coq_op(code, a, b, &vals, cap_now)) {
                 (false, Some(t)) => { coq_ops.push(t);
                     let mut e = ret; e.push(-7); if T::COUNTED { e.extend(drops.iter().map(|&x| x as i128)); }
                     e.extend([-8, v.len() as i128, cap_now as i128]); expect.push(zlist(&e)); }
@@ -642,18 +1050,32 @@ fn generic_history<T: Elem, V: VecApi<T>>(cx: &mut Ctx, cell: &str, tag: &str, c
     }
 }
 
-fn vec_cell(cx: &mut Ctx, tag: &str, cap0: u64, ops: &[Vec<u64>], coq: Coq) {
+fn vec_cell(cx: &mut Ctx, tag: &str, cap0: u64, opt: (u64, bool), ops: &[Vec<u64>], coq: Coq) {
     match tag {
-        "fastvec_u64" => generic_history::<u64, FastVec<u64>>(cx, "FastVec<u64>", tag, cap0, ops, coq),
-        "fastvec_u8" => generic_history::<u8, FastVec<u8>>(cx, "FastVec<u8>", tag, cap0, ops, coq),
-        "fastvec_el" => generic_history::<El, FvEl>(cx, "FastVec<El>/resize_with", tag, cap0, ops, coq),
-        "valvec32_el" => generic_history::<El, ValVec32<El>>(cx, "ValVec32<El>", tag, cap0, ops, coq),
-        "valvec32_u64" => generic_history::<u64, VV64>(cx, "ValVec32<u64>", tag, cap0, ops, coq),
-        "cachevec_el" => generic_history::<El, CacheAlignedVec<El>>(cx, "CacheAlignedVec<El>", tag, cap0, ops, coq),
-        "cachevec_u8" => generic_history::<u8, CacheAlignedVec<u8>>(cx, "CacheAlignedVec<u8>", tag, cap0, ops, coq),
-        "layoutvec_u64" => generic_history::<u64, Layout64>(cx, "cache_layout::CacheAlignedVec<u64>", tag, cap0, ops, coq),
-        "bumpvec_el" => generic_history::<El, Bump>(cx, "BumpVec<El>", tag, cap0, ops, coq),
-        "mmapvec_u64" => generic_history::<u64, Mm>(cx, "MmapVec<u64>", tag, cap0, ops, coq),
+        "fastvec_u64" => generic_history::<u64, FastVec<u64>>(cx, "FastVec<u64>", tag, cap0, opt, ops, coq),
+        "fastvec_u8" => generic_history::<u8, FastVec<u8>>(cx, "FastVec<u8>", tag, cap0, opt, ops, coq),
+        "fastvec_i16" => generic_history::<i16, FastVec<i16>>(cx, "FastVec<i16>", tag, cap0, opt, ops, coq),
+        "fastvec_u128" => generic_history::<u128, FastVec<u128>>(cx, "FastVec<u128>", tag, cap0, opt, ops, coq),
+        "fastvec_w3" => generic_history::<Wide, FastVec<Wide>>(cx, "FastVec<24-byte struct>", tag, cap0, opt, ops, coq),
+        "fastvec_zst" => generic_history::<(), FastVec<()>>(cx, "FastVec<()>", tag, cap0, opt, ops, coq),
+        "fastvec_el" => generic_history::<El, FvEl>(cx, "FastVec<El>/secondary entry points", tag, cap0, opt, ops, coq),
+        "valvec32_el" => generic_history::<El, ValVec32<El>>(cx, "ValVec32<El>", tag, cap0, opt, ops, coq),
+        "valvec32_u64" => generic_history::<u64, VV64>(cx, "ValVec32<u64>", tag, cap0, opt, ops, coq),
+        "valvec32_u8" => generic_history::<u8, VVC<u8>>(cx, "ValVec32<u8>", tag, cap0, opt, ops, coq),
+        "valvec32_i16" => generic_history::<i16, ValVec32<i16>>(cx, "ValVec32<i16>", tag, cap0, opt, ops, coq),
+        "valvec32_w3" => generic_history::<Wide, VVC<Wide>>(cx, "ValVec32<24-byte struct>", tag, cap0, opt, ops, coq),
+        "valvec32_zst" => generic_history::<(), ValVec32<()>>(cx, "ValVec32<()>", tag, cap0, opt, ops, coq),
+        "cachevec_el" => generic_history::<El, CacheAlignedVec<El>>(cx, "CacheAlignedVec<El>", tag, cap0, opt, ops, coq),
+        "cachevec_u8" => generic_history::<u8, CacheAlignedVec<u8>>(cx, "CacheAlignedVec<u8>", tag, cap0, opt, ops, coq),
+        "cachevec_u64" => generic_history::<u64, CacheAlignedVec<u64>>(cx, "CacheAlignedVec<u64>", tag, cap0, opt, ops, coq),
+        "cachevec_w3" => generic_history::<Wide, CacheAlignedVec<Wide>>(cx, "CacheAlignedVec<24-byte struct>", tag, cap0, opt, ops, coq),
+        "cachevec_zst" => generic_history::<(), CacheAlignedVec<()>>(cx, "CacheAlignedVec<()>", tag, cap0, opt, ops, coq),
+        "layoutvec_u64" => generic_history::<u64, Layout64>(cx, "cache_layout::CacheAlignedVec<u64>", tag, cap0, opt, ops, coq),
+        "bumpvec_el" => generic_history::<El, Bump>(cx, "BumpVec<El>", tag, cap0, opt, ops, coq),
+        "mmapvec_u64" => generic_history::<u64, Mm<u64>>(cx, "MmapVec<u64>", tag, cap0, opt, ops, coq),
+        "mmapvec_u8" => generic_history::<u8, Mm<u8>>(cx, "MmapVec<u8>", tag, cap0, opt, ops, coq),
+        "mmapvec_i16" => generic_history::<i16, Mm<i16>>(cx, "MmapVec<i16>", tag, cap0, opt, ops, coq),
+        "mmapvec_w3" => generic_history::<Wide, Mm<Wide>>(cx, "MmapVec<24-byte struct>", tag, cap0, opt, ops, coq),
         _ => {}
     }
 }
@@ -666,6 +1088,7 @@ fn valvec32_limits(cx: &mut Ctx) {
     cx.sum.eval(cell, "valvec32_limits", true);
     cx.sum.cell_status(cell, "S-only");
     let cj = json!({"cell": "valvec32_limits"});
+    if journal(&cj) { return; }
     let r = guarded(|| -> Option<String> {
         let n: usize = (1usize << 32) + 3;
         // a slice of zero-sized elements occupies no memory, whatever its length
@@ -714,12 +1137,14 @@ fn fastvec_probe(cx: &mut Ctx, args: &Args, mode: u64) {
     let cell = "FastVec<u64>";
     cx.sum.eval(cell, &format!("fastvec_probe {}", mode), true);
     let cj = json!({"cell": "fastvec_probe", "mode": mode});
+    if journal(&cj) { return; }
     let dir = format!("{}/probe_{}", args.out, mode);
     std::fs::create_dir_all(&dir).ok();
     let f = format!("{}/spec.json", dir);
     std::fs::write(&f, json!({"case": {"cell": "fastvec_probe_child", "mode": mode}}).to_string()).ok();
     let st = std::process::Command::new(std::env::current_exe().expect("current_exe"))
         .args(["C10", "--seed", "0", "--tier", "quick", "--out", &dir, "--replay", &f])
+        .env("ZV_C10_CHILD", "1").env_remove("ZV_C10_JOURNAL").env_remove("ZV_C10_SKIP")
         .stdout(std::process::Stdio::null()).stderr(std::process::Stdio::null()).status();
     std::fs::remove_dir_all(&dir).ok();
     let what = ["ensure_capacity(1) on a vector of 2 elements", "copy_from_slice_fast(&[9]) on [1, 2]", "copy_from_slice_fast(&[]) on [1, 2]"][(mode as usize).min(2)];
@@ -734,6 +1159,27 @@ fn fastvec_probe(cx: &mut Ctx, args: &Args, mode: u64) {
 // ---------------------------------------------------------------------------------------------
 // string vectors
 // ---------------------------------------------------------------------------------------------
+/// binary search over a sorted sequence: a hit must point at an equal string, a miss at a position where the needle could
+/// be inserted (everything before is smaller, everything from there on is larger) - which of several equal strings is hit
+/// is not constrained
+fn check_binary_search(sorted: &[String], probes: usize, search: impl Fn(&str) -> std::result::Result<usize, usize>, at: impl Fn(usize) -> Option<String>) -> Option<String> {
+    let n = sorted.len();
+    let step = (n / probes.max(1)).max(1);
+    let mut needles: Vec<String> = vec!["".into(), "~~~~".into(), "\u{0}".into(), "m".into()];
+    for s in sorted.iter().step_by(step) {
+        needles.push(s.clone()); needles.push(format!("{}\u{1}", s));
+        let mut h = s.len().saturating_sub(1); while h > 0 && !s.is_char_boundary(h) { h -= 1; } needles.push(s[..h].to_string());
+    }
+    if n > 0 { needles.push(sorted[0].clone()); needles.push(sorted[n - 1].clone()); needles.push(format!("{}z", sorted[n - 1])); }
+    for q in needles {
+        match search(&q) {
+            Ok(i) => { if at(i).as_deref() != Some(q.as_str()) { return Some(format!("binary_search({:?}) = Ok({}), but position {} holds {:?}", trunc(&q), i, i, at(i).as_deref().map(trunc))); } }
+            Err(i) => { if sorted.binary_search(&q).is_ok() { return Some(format!("binary_search({:?}) = Err({}), but the string is held ({} strings)", trunc(&q), i, n)); }
+                        if i > n || (i > 0 && sorted[i - 1].as_str() >= q.as_str()) || (i < n && sorted[i].as_str() <= q.as_str()) { return Some(format!("binary_search({:?}) = Err({}) is not where the string would be inserted ({} strings)", trunc(&q), i, n)); } }
+        }
+    }
+    None
+}
 fn first_diff(got: &[Option<String>], want: &[String]) -> Option<String> {
     if got.len() != want.len() { return Some(format!("{} elements, a Vec<String> holds {}", got.len(), want.len())); }
     for (i, w) in want.iter().enumerate() {
@@ -744,25 +1190,48 @@ fn first_diff(got: &[Option<String>], want: &[String]) -> Option<String> {
 fn trunc(s: &str) -> String { if s.len() > 40 { format!("{}..({} bytes)", s.chars().take(24).collect::<String>(), s.len()) } else { s.to_string() } }
 
 /// kind: 0 SortableStrVec, 1/2/3 FixedLenStrVec<4/8/16>, 4 ZoSortedStrVec::from_strings, 5 from_sorted_strings,
-/// 6 from_sortable_str_vec, 7/8 BitPackedStringVec32/64, 9..12 AdvancedStringVec level 0..3
+/// 6 from_sortable_str_vec, 7/8 BitPackedStringVec32/64, 9..12 AdvancedStringVec level 0..3, 13 a level above 3,
+/// 14/15 FixedLenStrVec<32/64>; `mode` selects constructor / preset, bulk or single pushes, the sort, clone points
 fn str_case(cx: &mut Ctx, kind: u64, strs: &[String], mode: u64) {
+    let cj = json!({"cell": "str", "kind": kind, "mode": mode, "strs": strs});
+    str_case_on(cx, kind, strs, mode, cj, &format!("{:?}", strs));
+}
+const STR_KINDS: u64 = 16;
+/// the same checks on a string set that the case describes by (kind, n, seed) instead of spelling it out
+fn str_case_on(cx: &mut Ctx, kind: u64, strs: &[String], mode: u64, cj: Value, key: &str) {
     let names = ["SortableStrVec", "FixedLenStrVec<4>", "FixedLenStrVec<8>", "FixedLenStrVec<16>", "ZoSortedStrVec/from_strings",
         "ZoSortedStrVec/from_sorted_strings", "ZoSortedStrVec/from_sortable_str_vec", "BitPackedStringVec32", "BitPackedStringVec64",
-        "AdvancedStringVec/level0", "AdvancedStringVec/level1", "AdvancedStringVec/level2", "AdvancedStringVec/level3"];
-    let cell = names[(kind as usize).min(12)];
-    cx.sum.eval(cell, &format!("{} {} {:?}", cell, mode, strs), strs.len() >= 2);
-    cx.sum.cell_status(cell, if kind <= 3 { "M+S" } else { "S-only" });
-    let cj = json!({"cell": "str", "kind": kind, "mode": mode, "strs": strs});
+        "AdvancedStringVec/level0", "AdvancedStringVec/level1", "AdvancedStringVec/level2", "AdvancedStringVec/level3",
+        "AdvancedStringVec/level>3", "FixedLenStrVec<32>", "FixedLenStrVec<64>"];
+    let cell = names[(kind as usize).min(15)];
+    if journal(&cj) { return; }
+    cx.sum.eval(cell, &format!("{} {} {}", cell, mode, key), strs.len() >= 2);
+    cx.sum.cell_status(cell, if kind <= 3 || kind >= 14 { "M+S" } else { "S-only" });
     let r: Result<Option<(Option<&'static str>, String)>, String> = guarded(|| -> Option<(Option<&'static str>, String)> {
         match kind {
             0 => {
-                let mut v = SortableStrVec::new();
-                let mut want: Vec<String> = vec![];
+                // the tuning knobs SortableStrVec reads from the environment when it is built: a cache block of 1, 2, 3 or 7
+                // strings makes binary_search take its block search from 3 strings on (default: above 512), no prefetch
+                let knobs = mode % 3 == 2;
+                if knobs { std::env::set_var("SORTABLE_CACHE_BLOCK", ["1", "2", "3", "7"][(mode / 3 % 4) as usize]); std::env::set_var("SORTABLE_PREFETCH", "0"); }
+                struct Unset(bool); impl Drop for Unset { fn drop(&mut self) { if self.0 { std::env::remove_var("SORTABLE_CACHE_BLOCK"); std::env::remove_var("SORTABLE_PREFETCH"); } } }
+                let _unset = Unset(knobs);
+                // constructor: new / with_capacity / from_iter (bulk) / Default
+                let ctor = (mode / 7) % 4;
+                let bulk = ctor == 2 && strs.iter().all(|s| s.len() < (1 << 20));
+                let mut v = match ctor { 1 => SortableStrVec::with_capacity(strs.len()), 3 => Default::default(),
+                                         2 if bulk => match SortableStrVec::from_iter(strs.iter()) { Ok(v) => v, Err(e) => return Some((None, format!("from_iter refused: {:?}", e))) },
+                                         _ => SortableStrVec::new() };
+                let mut want: Vec<String> = if bulk { strs.to_vec() } else { vec![] };
                 for (i, s) in strs.iter().enumerate() {
+                    if bulk { break; }
                     let r = if i % 2 == 0 { v.push_str(s) } else { v.push(s.clone()) };
                     match r { Ok(id) => { if id != want.len() { return Some((None, format!("push returned id {} for element {}", id, want.len()))); } want.push(s.clone()); }
                               Err(_) => { if s.len() < (1 << 20) { return Some((None, format!("push of a {}-byte string refused", s.len()))); } } }
                     if mode == 5 && i == strs.len() / 2 { v.clear(); want.clear(); }
+                    // housekeeping between the pushes must not change what is held
+                    if i == strs.len() / 3 { v.reserve(17); }
+                    if i == 2 * strs.len() / 3 { v.shrink_to_fit(); }
                 }
                 let v = if mode == 6 { let c = v.clone(); drop(v); c } else { v };
                 let mut v = v;
@@ -789,14 +1258,19 @@ fn str_case(cx: &mut Ctx, kind: u64, strs: &[String], mode: u64) {
                 let it: Vec<Option<String>> = v.iter_sorted().map(|s| Some(s.to_string())).collect();
                 if let Some(d) = first_diff(&it, &sorted) { return Some((None, format!("iter_sorted(): {}", d))); }
                 if v.get_sorted(want.len()).is_some() { return Some((None, "get_sorted past the end was not refused".into())); }
+                // binary search over the lexicographically sorted view (linear below 513 strings, block search above)
+                if matches!(mode % 5, 0 | 1 | 4) {
+                    if let Some(d) = check_binary_search(&sorted, 300, |n| v.binary_search(n), |i| v.get_sorted(i).map(|x| x.to_string())) { return Some((None, d)); }
+                }
+                v.shrink_to_fit();
                 // insertion order is untouched by sorting
                 let got: Vec<Option<String>> = (0..v.len()).map(|i| v.get(i).map(|s| s.to_string())).collect();
                 if let Some(d) = first_diff(&got, &want) { return Some((None, format!("after sort, get(): {}", d))); }
                 None
             }
-            1 | 2 | 3 => {
+            1 | 2 | 3 | 14 | 15 => {
                 fn go<const N: usize>(strs: &[String]) -> Option<(Option<&'static str>, String)> {
-                    let mut v: FixedLenStrVec<N> = if strs.len() % 2 == 0 { FixedLenStrVec::new() } else { FixedLenStrVec::with_capacity(strs.len()) };
+                    let mut v: FixedLenStrVec<N> = match strs.len() % 3 { 0 => FixedLenStrVec::new(), 1 => FixedLenStrVec::with_capacity(strs.len()), _ => Default::default() };
                     let mut want: Vec<String> = vec![];
                     for s in strs {
                         match v.push(s) { Ok(()) => { if s.len() > N { return Some((None, format!("a {}-byte string was accepted by FixedLenStrVec<{}>", s.len(), N))); } want.push(s.clone()); }
@@ -808,9 +1282,22 @@ fn str_case(cx: &mut Ctx, kind: u64, strs: &[String], mode: u64) {
                     if let Some(d) = first_diff(&gb, &want) { return Some((None, format!("get_bytes: {}", d))); }
                     if v.get(want.len()).is_some() || v.get_bytes(want.len() + 1).is_some() { return Some((None, "get past the end was not refused".into())); }
                     if v.is_empty() != want.is_empty() { return Some((None, "is_empty() disagrees".into())); }
+                    // searches: every pushed or refused string, its prefixes, and strings that are not there
+                    for (j, q) in strs.iter().enumerate().take(if strs.len() > 2000 { 25 } else { 200 }) {
+                        let w = want.iter().position(|x| x == q);
+                        if v.find_exact(q) != w { return Some((None, format!("find_exact({:?}) = {:?}, the first occurrence is {:?}", trunc(q), v.find_exact(q), w))); }
+                        let mut h = q.len() / 2 + j % 2; while h > 0 && !q.is_char_boundary(h.min(q.len())) { h -= 1; } let pre = &q[..h.min(q.len())];
+                        let mut t = q.len().saturating_sub(1); while t > 0 && !q.is_char_boundary(t) { t -= 1; }
+                        for probe in [pre.to_string(), format!("{}~", q), format!("{}~", &q[..t])] {
+                            let c = want.iter().filter(|x| x.starts_with(probe.as_str())).count();
+                            if v.count_prefix(&probe) != c { return Some((None, format!("count_prefix({:?}) = {}, {} of the held strings start with it", trunc(&probe), v.count_prefix(&probe), c))); }
+                            let w = want.iter().position(|x| *x == probe);
+                            if v.find_exact(&probe) != w { return Some((None, format!("find_exact({:?}) = {:?}, the first occurrence is {:?}", trunc(&probe), v.find_exact(&probe), w))); }
+                        }
+                    }
                     None
                 }
-                match kind { 1 => go::<4>(strs), 2 => go::<8>(strs), _ => go::<16>(strs) }
+                match kind { 1 => go::<4>(strs), 2 => go::<8>(strs), 3 => go::<16>(strs), 14 => go::<32>(strs), _ => go::<64>(strs) }
             }
             4 | 5 | 6 => {
                 let mut want: Vec<String> = strs.to_vec(); want.sort();
@@ -826,15 +1313,49 @@ fn str_case(cx: &mut Ctx, kind: u64, strs: &[String], mode: u64) {
                 let it: Vec<Option<String>> = v.iter().map(|s| Some(s.to_string())).collect();
                 if let Some(d) = first_diff(&it, &want) { return Some((class, format!("iter(): {}", d))); }
                 if v.get(want.len()).is_some() { return Some((None, "get past the end was not refused".into())); }
+                if class.is_some() { return None; }
+                let v = if mode % 2 == 1 { let c = v.clone(); drop(v); c } else { v };
+                if v.iter().len() != want.len() || v.is_empty() != want.is_empty() { return Some((None, format!("iter().len() = {}, {} strings held", v.iter().len(), want.len()))); }
+                if let Some(d) = check_binary_search(&want, if want.len() > 400 { 40 } else { 300 }, |n| v.binary_search(n), |i| v.get(i).map(|x| x.to_string())) { return Some((None, d)); }
+                for (j, q) in strs.iter().enumerate().take(if strs.len() > 400 { 3 } else { 120 }) {
+                    let absent = format!("{}\u{1}", q);
+                    if !v.contains(q) || v.contains(&absent) != want.contains(&absent) { return Some((None, format!("contains({:?}) = {}, contains({:?}) = {}", trunc(q), v.contains(q), trunc(&absent), v.contains(&absent)))); }
+                    // range [lo, hi): every pair of a pushed string with its successor in the input, and with itself
+                    let other = &strs[(j * 7 + 1) % strs.len()];
+                    for (lo, hi) in [(q, other), (other, q), (q, q), (q, &absent)] {
+                        let got: Vec<String> = v.range(lo, hi).map(|x| x.to_string()).collect();
+                        let exp: Vec<String> = want.iter().filter(|x| x.as_str() >= lo.as_str() && x.as_str() < hi.as_str()).cloned().collect();
+                        if got != exp || v.range(lo, hi).len() != exp.len() { return Some((None, format!("range({:?}, {:?}) yields {} strings {:?}.., the sorted sequence has {} there", trunc(lo), trunc(hi), got.len(), got.iter().take(3).map(|x| trunc(x)).collect::<Vec<_>>(), exp.len()))); }
+                    }
+                }
                 None
             }
             7 | 8 => {
                 macro_rules! go { ($t:ty) => {{
-                    let mut v: $t = if mode % 2 == 0 { <$t>::new() } else { <$t>::with_capacity(strs.len()) };
+                    // constructor / preset: new, with_capacity, the three presets, Default, a configuration with nothing pre-allocated
+                    let mut v: $t = match mode % 7 { 0 => <$t>::new(), 1 => <$t>::with_capacity(strs.len()), 2 => <$t>::with_config(BitPackedConfig::performance_optimized()),
+                        3 => <$t>::with_config(BitPackedConfig::memory_optimized()), 4 => <$t>::with_config(BitPackedConfig::large_dataset()), 5 => Default::default(),
+                        _ => <$t>::with_config(BitPackedConfig { initial_arena_capacity: 0, initial_index_capacity: 0, enable_hardware_acceleration: false, use_memory_mapping: false, simd_alignment: mode as usize % 2 }) };
                     let mut want: Vec<String> = vec![];
                     if mode % 3 == 0 { let idx = v.extend(strs.iter()).ok()?; if idx != (0..strs.len()).collect::<Vec<_>>() { return Some((None, "extend returned wrong indices".into())); } want = strs.to_vec(); }
-                    else { for s in strs { let id = v.push(s).ok()?; if id != want.len() { return Some((None, format!("push returned index {} for element {}", id, want.len()))); } want.push(s.clone()); } }
-                    let v = if mode % 5 == 1 { v.clone() } else { v };
+                    else { for s in strs { match v.push(s) { Ok(id) => { if id != want.len() { return Some((None, format!("push returned index {} for element {}", id, want.len()))); } want.push(s.clone()); }
+                                                              Err(e) => { if s.len() < (1 << 24) { return Some((None, format!("push of a {}-byte string refused: {:?}", s.len(), e))); } } } } }
+                    // clone, then the clone diverges
+                    let v = if mode % 5 == 1 { let mut c = v.clone();
+                        for extra in ["divergent tail", "", "0123456789abcdef0123456789abcdef!"] { let id = c.push(extra).ok()?; if id != want.len() { return Some((None, format!("push into the clone returned index {} for element {}", id, want.len()))); } want.push(extra.to_string()); }
+                        if v.len() + 3 != c.len() { return Some((None, "pushing into the clone changed the original".into())); }
+                        c } else { v };
+                    for (j, q) in want.iter().enumerate().take(if want.len() > 2000 { 25 } else { 150 }) {
+                        if v.get_bytes(j) != Some(q.as_bytes()) { return Some((None, format!("get_bytes({}) differs from the pushed string", j))); }
+                        let w = want.iter().position(|x| x == q);
+                        if v.find_simd(q) != w { return Some((None, format!("find_simd({:?}) = {:?}, the first occurrence is {:?}", trunc(q), v.find_simd(q), w))); }
+                        // a needle of the same length that differs in the last / first byte, and one that is longer
+                        let mut h = q.len().saturating_sub(1); while h > 0 && !q.is_char_boundary(h) { h -= 1; }
+                        for absent in [format!("{}~", &q[..h]), format!("~{}", q), format!("{}~", q)] {
+                            let w = want.iter().position(|x| *x == absent);
+                            if v.find_simd(&absent) != w { return Some((None, format!("find_simd({:?}) = {:?}, the first occurrence is {:?}", trunc(&absent), v.find_simd(&absent), w))); }
+                        }
+                    }
                     let got: Vec<Option<String>> = (0..v.len()).map(|i| v.get(i).map(|s| s.to_string())).collect();
                     if let Some(d) = first_diff(&got, &want) { return Some((None, d)); }
                     let it: Vec<Option<String>> = v.iter().map(|s| Some(s.to_string())).collect();
@@ -845,21 +1366,32 @@ fn str_case(cx: &mut Ctx, kind: u64, strs: &[String], mode: u64) {
                 if kind == 7 { go!(BitPackedStringVec32) } else { go!(BitPackedStringVec64) }
             }
             _ => {
-                let level = (kind - 9).min(3) as u8;
+                // kind 13: a compression level above 3 (falls back to level 1)
+                let level = if kind >= 13 { 4 + (mode % 200) as u8 } else { (kind - 9).min(3) as u8 };
                 let mut cfg = match mode % 4 { 0 => AdvancedStringConfig::default(), 1 => AdvancedStringConfig::performance_optimized(), 2 => AdvancedStringConfig::memory_optimized(), _ => AdvancedStringConfig::balanced() };
                 cfg.compression_level = level;
-                let mut v = AdvancedStringVec::with_config(cfg);
+                if mode % 5 == 2 { cfg.min_overlap_length = [0usize, 1, 2, 5][(mode / 5 % 4) as usize]; cfg.hash_table_size = 1; cfg.enable_hardware_acceleration = false; }
+                // level 1 is what new() / with_capacity() / Default build
+                let mut v = if level == 1 && mode % 7 >= 4 { match mode % 7 { 4 => AdvancedStringVec::new(), 5 => AdvancedStringVec::with_capacity(strs.len()), _ => Default::default() } } else { AdvancedStringVec::with_config(cfg) };
                 let mut idx: Vec<usize> = vec![];
+                let mut acc: Vec<String> = vec![];   // the accepted strings (a string beyond the 24-bit length field may be refused)
+                let every = if strs.len() > 600 { 64 } else { 4 };
                 for (i, s) in strs.iter().enumerate() {
-                    match v.push(s) { Ok(id) => idx.push(id), Err(e) => return Some((None, format!("push refused: {:?}", e))) }
+                    // clone in the middle of the history: the later pushes go into the clone
+                    if mode % 3 == 2 && i == strs.len() / 2 { let c = v.clone(); drop(v); v = c; }
+                    match v.push(s) { Ok(id) => { idx.push(id); acc.push(s.clone()); }
+                                      Err(e) => { if s.len() < (1 << 24) { return Some((None, format!("push of a {}-byte string refused: {:?}", s.len(), e))); } } }
                     // every index handed out so far must still read back the string that was pushed
-                    if i % 4 == 3 || i + 1 == strs.len() {
-                        for (j, &id) in idx.iter().enumerate() { if v.get(id) != Some(strs[j].as_str()) {
-                            return Some((None, format!("after push #{}, index {} (returned for push #{}) reads {:?}, pushed {:?}", i, id, j, v.get(id).map(trunc), trunc(&strs[j])))); } }
+                    if i % every == every - 1 || i + 1 == strs.len() {
+                        for (j, &id) in idx.iter().enumerate() { if v.get(id) != Some(acc[j].as_str()) {
+                            return Some((None, format!("after push #{}, index {} (returned for accepted push #{}) reads {:?}, pushed {:?}", i, id, j, v.get(id).map(trunc), trunc(&acc[j])))); } }
                     }
                 }
+                let strs: &[String] = &acc;
                 let v = if mode % 3 == 1 { v.clone() } else { v };
-                for (j, &id) in idx.iter().enumerate() { if v.get(id) != Some(strs[j].as_str()) { return Some((None, format!("index {} reads {:?}, pushed {:?}", id, v.get(id).map(trunc), trunc(&strs[j])))); } }
+                for (j, &id) in idx.iter().enumerate() { if v.get(id) != Some(strs[j].as_str()) { return Some((None, format!("index {} reads {:?}, pushed {:?}", id, v.get(id).map(trunc), trunc(&strs[j])))); }
+                                                         if v.get_bytes(id) != Some(strs[j].as_bytes()) { return Some((None, format!("get_bytes({}) differs from the pushed string", id))); } }
+                if v.is_empty() != (v.len() == 0) || v.get_bytes(v.len()).is_some() { return Some((None, "is_empty / get_bytes past the end".into())); }
                 // the element sequence of a Vec<String>
                 let got: Vec<Option<String>> = v.iter().map(|s| Some(s.to_string())).collect();
                 if let Some(d) = first_diff(&got, strs) {
@@ -903,17 +1435,25 @@ fn sop_coq_str(o: &Value) -> String {
 
 /// SortableStrVec: [0,s] push_str  [1,i] get  [2] len  [3] iter  [4] clear  [5] sort_lexicographic  [6] sort_by_length
 /// [7] sort_by(reverse)  [8,i] get_sorted  [9] iter_sorted  [10] clone  [11] radix_sort  [12] sort  [13,s] push(String)
+/// outside the mechanism model: [14,s] binary_search  [15,n] reserve  [16] shrink_to_fit, stats  [17] re-build with from_iter
+/// [18] sort_by(length, then reverse lexicographic)
 fn strvec_history(cx: &mut Ctx, ops: &[Value], coq: Coq) {
     let cell = "SortableStrVec";
     cx.sum.eval(cell, &format!("strvec {:?}", ops), ops.len() >= 3);
     let cj = json!({"cell": "strvec", "ops": ops});
+    if journal(&cj) { return; }
     #[derive(PartialEq, Clone, Copy)] enum Mode { Unsorted, Exact, ByLen }
+    // every third history runs with the environment knobs of SortableStrVec set: cache block of 1 / 2 / 3 / 7 strings
+    // (binary_search then takes its block search from 3 strings on), no prefetch
+    let knobs = ops.len() % 3 == 0;
+    if knobs { std::env::set_var("SORTABLE_CACHE_BLOCK", ["1", "2", "3", "7"][ops.len() / 3 % 4]); std::env::set_var("SORTABLE_PREFETCH", "0"); }
     let r = guarded(|| -> Result<(Vec<String>, Vec<String>, bool), String> {
         let mut v = SortableStrVec::new();
         let mut want: Vec<String> = vec![];
         let mut view: Vec<String> = vec![];   // what the sorted view must show (Exact), or a sorted-by-length reference (ByLen)
         let mut mode = Mode::Unsorted;
-        let mut coq_ops: Vec<String> = vec![]; let mut expect: Vec<String> = vec![]; let coq_ok = true;
+        let mut lex = false;   // the sorted view is the lexicographic one (binary_search answers only then)
+        let mut coq_ops: Vec<String> = vec![]; let mut expect: Vec<String> = vec![]; let mut coq_ok = true;
         for o in ops {
             let code = o[0].as_u64().unwrap_or(0);
             let i = o[1].as_u64().unwrap_or(0) as usize;
@@ -936,10 +1476,20 @@ fn strvec_history(cx: &mut Ctx, ops: &[Value], coq: Coq) {
                 4 => { v.clear(); want.clear(); mode = Mode::Unsorted; e = vec![0]; cop = Some("TS SClear".into()); }
                 5 | 11 | 12 => { let r = match code { 5 => v.sort_lexicographic(), 11 => v.radix_sort(), _ => v.sort() };
                        if r.is_err() { return Err("sort refused".into()); }
-                       view = want.clone(); view.sort(); mode = Mode::Exact; e = vec![0];
+                       view = want.clone(); view.sort(); mode = Mode::Exact; lex = true; e = vec![0];
                        cop = Some(if code == 11 { "TS SRadix" } else { "TS SSortLex" }.into()); }
-                6 => { if v.sort_by_length().is_err() { return Err("sort_by_length refused".into()); } view = want.clone(); view.sort(); mode = Mode::ByLen; e = vec![0]; cop = Some("TS SSortByLen".into()); }
-                7 => { if v.sort_by(|a, b| b.cmp(a)).is_err() { return Err("sort_by refused".into()); } view = want.clone(); view.sort(); view.reverse(); mode = Mode::Exact; e = vec![0]; cop = Some("TS (SSortBy rev_lex)".into()); }
+                14 => { let st = sop_str(o); let g = v.binary_search(&st);
+                        if mode == Mode::Exact && lex {
+                            match g { Ok(i) => if view.get(i) != Some(&st) { return Err(format!("binary_search({:?}) = Ok({}), the sorted sequence has {:?} there", trunc(&st), i, view.get(i).map(|x| trunc(x)))); },
+                                      Err(i) => if view.binary_search(&st).is_ok() || i > view.len() || (i > 0 && view[i - 1] >= st) || (i < view.len() && view[i] <= st) {
+                                          return Err(format!("binary_search({:?}) = Err({}) with {} strings held (held: {})", trunc(&st), i, view.len(), view.binary_search(&st).is_ok())); } } } }
+                15 => { v.reserve(i.min(5000)); }
+                16 => { v.shrink_to_fit(); let _ = v.stats(); let _ = v.memory_savings_vs_vec_string(); }
+                18 => { if v.sort_by(|a, b| a.len().cmp(&b.len()).then(b.cmp(a))).is_err() { return Err("sort_by refused".into()); }
+                        view = want.clone(); view.sort_by(|a, b| a.len().cmp(&b.len()).then(b.cmp(a))); mode = Mode::Exact; lex = false; coq_ok = false; }
+                17 => { match SortableStrVec::from_iter(want.iter()) { Ok(n) => { v = n; mode = Mode::Unsorted; coq_ok = false; } Err(e) => return Err(format!("from_iter of the held strings refused: {:?}", e)) } }
+                6 => { if v.sort_by_length().is_err() { return Err("sort_by_length refused".into()); } view = want.clone(); view.sort(); mode = Mode::ByLen; lex = false; e = vec![0]; cop = Some("TS SSortByLen".into()); }
+                7 => { if v.sort_by(|a, b| b.cmp(a)).is_err() { return Err("sort_by refused".into()); } view = want.clone(); view.sort(); view.reverse(); mode = Mode::Exact; lex = false; e = vec![0]; cop = Some("TS (SSortBy rev_lex)".into()); }
                 8 => { let g = v.get_sorted(i).map(|x| x.to_string());
                        match mode { Mode::Exact => if g != view.get(i).cloned() { return Err(format!("get_sorted({}) = {:?}, the sorted sequence has {:?}", i, g.as_deref().map(trunc), view.get(i).map(|x| trunc(x)))); },
                                     Mode::ByLen => { let mut lens: Vec<usize> = want.iter().map(|x| x.len()).collect(); lens.sort();
@@ -967,6 +1517,7 @@ fn strvec_history(cx: &mut Ctx, ops: &[Value], coq: Coq) {
         }
         Ok((coq_ops, expect, coq_ok))
     });
+    if knobs { std::env::remove_var("SORTABLE_CACHE_BLOCK"); std::env::remove_var("SORTABLE_PREFETCH"); }
     match r {
         Err(p) => cx.sum.fail(cell, None, cj, &format!("panicked: {}", p)),
         Ok(Err(d)) => cx.sum.fail(cell, None, cj, &d),
@@ -977,12 +1528,13 @@ fn strvec_history(cx: &mut Ctx, ops: &[Value], coq: Coq) {
 
 /// FixedLenStrVec<N>: [0,s] push  [1,i] get  [2,i] get_bytes  [3] len  [4,s] find_exact  [5,s] count_prefix
 fn fixedlen_history_n<const N: usize>(cx: &mut Ctx, ops: &[Value], coq: Coq) {
-    let cell: &'static str = match N { 4 => "FixedLenStrVec<4>", 8 => "FixedLenStrVec<8>", 16 => "FixedLenStrVec<16>", _ => "FixedLenStrVec<300>" };
+    let cell: &'static str = match N { 4 => "FixedLenStrVec<4>", 8 => "FixedLenStrVec<8>", 16 => "FixedLenStrVec<16>", 32 => "FixedLenStrVec<32>", 64 => "FixedLenStrVec<64>", _ => "FixedLenStrVec<300>" };
     cx.sum.eval(cell, &format!("fixedlen {} {:?}", N, ops), ops.len() >= 3);
     cx.sum.cell_status(cell, "M+S");
     let cj = json!({"cell": "fixedlen", "cap": N, "ops": ops});
+    if journal(&cj) { return; }
     let r = guarded(|| -> Result<(Vec<String>, Vec<String>), String> {
-        let mut v: FixedLenStrVec<N> = if ops.len() % 2 == 0 { FixedLenStrVec::new() } else { FixedLenStrVec::with_capacity(ops.len()) };
+        let mut v: FixedLenStrVec<N> = match ops.len() % 3 { 0 => FixedLenStrVec::new(), 1 => FixedLenStrVec::with_capacity(ops.len()), _ => Default::default() };
         let mut want: Vec<String> = vec![];
         let mut coq_ops: Vec<String> = vec![]; let mut expect: Vec<String> = vec![];
         for o in ops {
@@ -1022,7 +1574,8 @@ fn fixedlen_history_n<const N: usize>(cx: &mut Ctx, ops: &[Value], coq: Coq) {
     }
 }
 fn fixedlen_history(cx: &mut Ctx, n: u64, ops: &[Value], coq: Coq) {
-    match n { 4 => fixedlen_history_n::<4>(cx, ops, coq), 8 => fixedlen_history_n::<8>(cx, ops, coq), 16 => fixedlen_history_n::<16>(cx, ops, coq), _ => fixedlen_history_n::<300>(cx, ops, coq) }
+    match n { 4 => fixedlen_history_n::<4>(cx, ops, coq), 8 => fixedlen_history_n::<8>(cx, ops, coq), 16 => fixedlen_history_n::<16>(cx, ops, coq),
+              32 => fixedlen_history_n::<32>(cx, ops, coq), 64 => fixedlen_history_n::<64>(cx, ops, coq), _ => fixedlen_history_n::<300>(cx, ops, coq) }
 }
 
 /// FixedLenStrVec at the 24-bit arena limit (oracle only: 65 793 pushes of 255 bytes fill the arena to 2^24 - 1 bytes)
@@ -1030,6 +1583,7 @@ fn fixedlen_limit(cx: &mut Ctx) {
     let cell = "FixedLenStrVec<300>";
     cx.sum.eval(cell, "fixedlen_limit", true);
     let cj = json!({"cell": "fixedlen_limit"});
+    if journal(&cj) { return; }
     let r = guarded(|| -> Option<String> {
         let mut v: FixedLenStrVec<300> = FixedLenStrVec::new();
         let block: String = (0..255u32).map(|i| (b'a' + (i % 26) as u8) as char).collect();
@@ -1048,7 +1602,7 @@ fn fixedlen_limit(cx: &mut Ctx) {
 }
 
 fn gen_str_ops(r: &mut Rng, fixed_n: Option<usize>) -> Vec<Value> {
-    let kind = match fixed_n { Some(4) => 1, Some(8) => 2, Some(16) => 3, _ => 0 };
+    let kind = match fixed_n { Some(4) => 1, Some(8) => 2, Some(16) => 3, Some(32) => 14, Some(64) => 15, _ => 0 };
     let mut pool = gen_strings(r, kind);
     if pool.is_empty() { pool.push("a".into()); }
     if let Some(n) = fixed_n { if n > 255 { let l = *r.pick(&[254usize, 255, 256, 300, 301]); pool.push("q".repeat(l)); pool.push("é".repeat(127)); pool.push(format!("{}x", "é".repeat(127))); } }
@@ -1068,7 +1622,8 @@ fn gen_str_ops(r: &mut Rng, fixed_n: Option<usize>) -> Vec<Value> {
         } else {
             if c < 38 { len += 1; json!([if c % 2 == 0 { 0 } else { 13 }, s]) } else if c < 50 { json!([1, idx(r, len)]) } else if c < 53 { json!([2]) } else if c < 58 { json!([3]) }
             else if c < 61 { len = 0; json!([4]) } else if c < 68 { json!([5]) } else if c < 73 { json!([6]) } else if c < 78 { json!([7]) } else if c < 86 { json!([8, idx(r, len)]) }
-            else if c < 92 { json!([9]) } else if c < 94 { json!([10]) } else if c < 98 { json!([11]) } else { json!([12]) }
+            else if c < 91 { json!([9]) } else if c < 93 { json!([10]) } else if c < 96 { json!([11]) } else if c < 97 { json!([12]) }
+            else { let q = if r.chance(1, 2) { sub(r, &s) } else { s }; let k = r.below(40); r.pick(&[json!([14, q]), json!([14, q]), json!([15, k]), json!([16]), json!([17]), json!([18])]).clone() }
         });
     }
     ops
@@ -1098,8 +1653,12 @@ fn gen_ring_ops(r: &mut Rng, cap0: u64) -> Vec<Vec<u64>> {
             else if c < 80 { let rb = r.below(20); vec![4, *r.pick(&[0, 1, free, free + 1, rb])] }
             else if c < 84 { len = 0; vec![5] }
             else if c < 88 { vec![6] }
-            else if c < 92 { vec![7] }
-            else { vec![8] };
+            else if c < 91 { vec![7] }
+            else if c < 94 { vec![8] }
+            else if c < 96 { vec![11, r.below(1000)] }
+            else if c < 97 { vec![12] }
+            else if c < 99 { len += 1; vec![9] }
+            else { len = len.saturating_sub(1); vec![10] };
         while cap < len { cap *= 2; }
         ops.push(o);
     }
@@ -1113,7 +1672,7 @@ fn gen_fixed_ops(r: &mut Rng, n: u64) -> Vec<Vec<u64>> {
     for i in 0..cnt {
         let c = r.below(100);
         let push_bias = if burst && (i / (n + 1)) % 2 == 0 { 75 } else { 40 };
-        ops.push(if c < push_bias { vec![0] } else if c < 88 { vec![1] } else if c < 91 { vec![5] } else if c < 96 { vec![6] } else { vec![7] });
+        ops.push(if c < push_bias { vec![if c % 7 == 3 { 9 } else { 0 }] } else if c < 88 { vec![if c % 7 == 3 { 10 } else { 1 }] } else if c < 91 { vec![5] } else if c < 95 { vec![6] } else if c < 98 { vec![7] } else { vec![12] });
     }
     ops
 }
@@ -1125,7 +1684,8 @@ fn gen_vec_ops(r: &mut Rng, allowed: &[u64], big: bool) -> Vec<Vec<u64>> {
     for _ in 0..n {
         let code = *r.pick(allowed);
         let idx = |r: &mut Rng, len: u64| { let rb = r.below(len + 1); *r.pick(&[0, len, len.saturating_sub(1), len + 1, rb, len / 2]) };
-        let amount = |r: &mut Rng| if big { *r.pick(&[0u64, 1, 7, 8, 9, 63, 64, 65, 70, 130]) } else { *r.pick(&[0u64, 1, 2, 3, 5, 9, 17]) };
+        // amounts around the 64-byte switch of every element size in use: 64 / 8 / 4 / 3 (24-byte) / 32 (2-byte) elements
+        let amount = |r: &mut Rng| if big { *r.pick(&[0u64, 1, 2, 3, 4, 5, 7, 8, 9, 31, 32, 33, 63, 64, 65, 70, 130]) } else { *r.pick(&[0u64, 1, 2, 3, 5, 9, 17]) };
         let o = match code {
             0 => { len += 1; vec![0] }
             1 => { len = len.saturating_sub(1); vec![1] }
@@ -1145,6 +1705,14 @@ fn gen_vec_ops(r: &mut Rng, allowed: &[u64], big: bool) -> Vec<Vec<u64>> {
             15 => { let k = amount(r); len = k; vec![15, k] }
             17 => { let am = amount(r); vec![17, *r.pick(&[0, 1, len, len.saturating_sub(1), len + 1, len + am])] }
             18 => { let am = amount(r); let m = *r.pick(&[0, len, len.saturating_sub(1), len / 2, len + 1, len + am]); len = m; vec![18, m] }
+            19 => { let k = amount(r); len = k; vec![19, k] }
+            20 => vec![20, idx(r, len), r.below(16)],
+            21 => vec![21, idx(r, len), r.below(16)],
+            22 => vec![22, r.below(1000)],
+            23 => vec![23],
+            24 => vec![24, r.below(6)],
+            25 => { len += 1; vec![25] }
+            27 => vec![27],
             _ => { let k = *r.pick(&[0u64, 1, 15, 16, 17, 33, 64]); len += k; vec![16, k] }
         };
         ops.push(o);
@@ -1155,7 +1723,7 @@ fn gen_vec_ops(r: &mut Rng, allowed: &[u64], big: bool) -> Vec<Vec<u64>> {
 fn gen_strings(r: &mut Rng, kind: u64) -> Vec<String> {
     let n = *r.pick(&[0usize, 1, 2, 3, 5, 8, 17, 33, 40]);
     let style = r.below(6);
-    let maxlen: usize = match kind { 1 => 6, 2 => 10, 3 => 18, _ => *r.pick(&[3usize, 8, 9, 16, 40]) };
+    let maxlen: usize = match kind { 1 => 6, 2 => 10, 3 => 18, 14 => 34, 15 => 66, _ => *r.pick(&[3usize, 8, 9, 16, 40, 70]) };
     let alpha: &[u8] = match style { 0 => b"ab", 1 => b"abc", 2 => b"abcdefgh", 3 => b"ab\0", _ => b"abcdefghijklmnopqrstuvwxyz0123456789" };
     let mut out: Vec<String> = vec![];
     for _ in 0..n {
@@ -1179,25 +1747,31 @@ fn gen_strings(r: &mut Rng, kind: u64) -> Vec<String> {
 fn run_one(cx: &mut Ctx, c: &Value, args: &Args) {
     let cap = c["cap"].as_u64().unwrap_or(0);
     match c["cell"].as_str().unwrap_or("") {
-        "ring" => ring_history(cx, cap, &parse_ops(&c["ops"]), Coq::Always),
+        "ring" => ring_history(cx, cap, c["ctor"].as_u64().unwrap_or(0), &parse_ops(&c["ops"]), Coq::Always),
         "fixed" => fixed_history(cx, cap, &parse_ops(&c["ops"]), Coq::Always),
         "fastvec" => fastvec_history(cx, cap, &parse_ops(&c["ops"]), Coq::Always),
         "valvec32_limits" => valvec32_limits(cx),
-        "fastvec_probe_child" => fastvec_probe_child(c["mode"].as_u64().unwrap_or(0)),
+        "fastvec_probe_child" => { let m = c["mode"].as_u64().unwrap_or(0); if m >= 3 { breadth::probe_child(m, &args.out) } else { fastvec_probe_child(m) } }
         "fastvec_probe" => fastvec_probe(cx, args, c["mode"].as_u64().unwrap_or(0)),
         "strvec" => strvec_history(cx, c["ops"].as_array().map(|a| a.as_slice()).unwrap_or(&[]), Coq::Always),
         "fixedlen" => fixedlen_history(cx, cap, c["ops"].as_array().map(|a| a.as_slice()).unwrap_or(&[]), Coq::Always),
         "fixedlen_limit" => fixedlen_limit(cx),
         "str" => { let strs: Vec<String> = c["strs"].as_array().map(|a| a.iter().map(|s| s.as_str().unwrap_or("").to_string()).collect()).unwrap_or_default();
                    str_case(cx, c["kind"].as_u64().unwrap_or(0), &strs, c["mode"].as_u64().unwrap_or(0)) }
-        t => vec_cell(cx, t, cap, &parse_ops(&c["ops"]), Coq::Always),
+        t => if !breadth::run_one(cx, c, args) { vec_cell(cx, t, cap, (c["ctor"].as_u64().unwrap_or(0), c["big"].as_bool().unwrap_or(false)), &parse_ops(&c["ops"]), Coq::Always) },
     }
 }
 
 pub fn run(args: &Args) {
+    if std::env::var_os("ZV_C10_CHILD").is_none() && std::env::var_os("ZV_C10_INPROCESS").is_none() && supervise(args) { return; }
+    run_inner(args)
+}
+fn run_inner(args: &Args) {
     if std::env::var("ZV_DEBUG").is_ok() { std::panic::set_hook(Box::new(|i| eprintln!("panic: {}", i))); }
+    // MmapVec::with_capacity_simd creates its file in std::env::temp_dir()
+    if std::env::var_os("TMPDIR").is_none() { std::env::set_var("TMPDIR", mm_dir()); }
     let mut cx = Ctx {
-        sum: Summary::new("C10", "operation histories (4..60 ops) on every container the property names, element type = drop-counting handle (per-id live-instance count compared with the shadow container after every operation and after Drop) or u8/u64 for the Copy/SIMD paths; initial capacities 0,1,2,3,4,7,8,9,16; ring histories start by rotating head to a chosen offset, bulk sizes are chosen to exactly fill / overshoot by one / straddle the wrap point, growth while wrapped is counted; vector indices at 0, len-1, len, len+1; string sets with duplicates, shared prefixes/suffixes, empty strings, NUL bytes, multi-byte UTF-8, lengths at the fixed limit; after every operation len/front/back/as_slice/get (incl. two indices past the end) are compared with VecDeque/Vec; non-trivial = history of >= 3 operations or >= 2 strings"),
+        sum: Summary::new("C10", "operation histories (4..60 ops) on every container the property names, element type = drop-counting handle (per-id live-instance count compared with the shadow container after every operation and after Drop) or u8/u64 for the Copy/SIMD paths; initial capacities 0,1,2,3,4,7,8,9,16; ring histories start by rotating head to a chosen offset, bulk sizes are chosen to exactly fill / overshoot by one / straddle the wrap point, growth while wrapped is counted; vector indices at 0, len-1, len, len+1; string sets with duplicates, shared prefixes/suffixes, empty strings, NUL bytes, multi-byte UTF-8, lengths at the fixed limit; after every operation len/front/back/as_slice/get (incl. two indices past the end) are compared with VecDeque/Vec; non-trivial = history of >= 3 operations or >= 2 strings; breadth families (c10_breadth.rs): the same histories widened by the secondary entry points (aliases, ==, Debug, Index/IndexMut/get_mut/as_mut_slice/iter_mut, iterators, with_size, unchecked push, other constructors and presets as \"ctor\"), element types i16 / u128 / 24-byte struct / zero-sized (the latter in a child process), deterministic scripts around 512, 4096, 8182, 2^16, 2^20 elements (\"big\": sizes as numbers in the case), several BumpVecs in one allocator, MmapVec presets and read-only re-opening, string sets of 513..70000 strings by (kind, n, seed) and strings of 2^24 bytes by (kind, len)"),
         shards: CoqShards::new(HEADER, 150),
         budgets: Default::default(),
     };
@@ -1240,7 +1814,7 @@ pub fn run(args: &Args) {
                 let mut x = code; let mut ops = vec![];
                 for _ in 0..l { ops.push(alphabet[x % 5].clone()); x /= 5; }
                 // keep the Coq budget for the generated family: only every 12th enumerated history is replayed in Coq
-                ring_history(&mut cx, cap0, &ops, if code % 12 == 0 { Coq::Budget } else { Coq::Never });
+                ring_history(&mut cx, cap0, 0, &ops, if code % 12 == 0 { Coq::Budget } else { Coq::Never });
             }
         }
     }
@@ -1251,7 +1825,7 @@ pub fn run(args: &Args) {
         let cap0 = CAPS[(i % 9) as usize];
         let ops = gen_ring_ops(&mut rng, cap0);
         if i < 2 { cx.sum.sample(json!({"ring_cap": cap0, "ops": ops.iter().take(10).collect::<Vec<_>>()})); }
-        ring_history(&mut cx, cap0, &ops, Coq::Budget);
+        ring_history(&mut cx, cap0, if i % 11 == 3 { 1 } else if i % 11 == 7 { 2 } else { 0 }, &ops, Coq::Budget);
         let n = [1u64, 2, 3, 4, 7, 8, 9, 16][(i % 8) as usize];
         let ops = gen_fixed_ops(&mut rng, n);
         fixed_history(&mut cx, n, &ops, Coq::Budget);
@@ -1260,36 +1834,36 @@ pub fn run(args: &Args) {
         fastvec_history(&mut cx, cap0, &ops, Coq::Budget);
         if i % 2 == 0 {
             let ops = gen_vec_ops(&mut rng, &[0, 1, 2, 3, 4, 5, 6, 7, 7, 8, 9, 10, 13, 2, 3, 15, 17], true);
-            vec_cell(&mut cx, "fastvec_u64", cap0, &ops, Coq::Budget);
+            vec_cell(&mut cx, "fastvec_u64", cap0, (0, false), &ops, Coq::Budget);
             let ops = gen_vec_ops(&mut rng, &[0, 1, 2, 3, 4, 4, 5, 6, 7, 7, 8, 9, 10, 13, 2, 3, 15, 17], true);
-            vec_cell(&mut cx, "fastvec_u8", cap0, &ops, Coq::Budget);
+            vec_cell(&mut cx, "fastvec_u8", cap0, (0, false), &ops, Coq::Budget);
             let ops = gen_vec_ops(&mut rng, &[0, 0, 1, 2, 3, 4, 5, 6, 7, 8, 9, 10, 18, 18, 18], false);
-            vec_cell(&mut cx, "fastvec_el", cap0, &ops, Coq::Budget);
+            vec_cell(&mut cx, "fastvec_el", cap0, (0, false), &ops, Coq::Budget);
             let ops = gen_vec_ops(&mut rng, &[0, 0, 1, 5, 7, 8, 9, 10, 11], false);
-            vec_cell(&mut cx, "valvec32_el", cap0, &ops, Coq::Budget);
+            vec_cell(&mut cx, "valvec32_el", cap0, (0, false), &ops, Coq::Budget);
             let ops = gen_vec_ops(&mut rng, &[0, 0, 1, 5, 7, 8, 9, 10, 11, 16], true);
-            vec_cell(&mut cx, "valvec32_u64", cap0, &ops, Coq::Budget);
+            vec_cell(&mut cx, "valvec32_u64", cap0, (0, false), &ops, Coq::Budget);
             let ops = gen_vec_ops(&mut rng, &[0, 0, 0, 1, 5, 8, 9, 12], false);
-            vec_cell(&mut cx, "cachevec_el", cap0, &ops, Coq::Budget);
-            vec_cell(&mut cx, "cachevec_u8", cap0, &ops, Coq::Budget);
+            vec_cell(&mut cx, "cachevec_el", cap0, (0, false), &ops, Coq::Budget);
+            vec_cell(&mut cx, "cachevec_u8", cap0, (0, false), &ops, Coq::Budget);
             let ops = gen_vec_ops(&mut rng, &[0, 0, 0, 1, 9], false);
-            vec_cell(&mut cx, "bumpvec_el", cap0.max(1), &ops, Coq::Budget);
+            vec_cell(&mut cx, "bumpvec_el", cap0.max(1), (0, false), &ops, Coq::Budget);
             let ops = gen_vec_ops(&mut rng, &[0, 0, 9], false);
-            vec_cell(&mut cx, "layoutvec_u64", cap0, &ops, Coq::Budget);
+            vec_cell(&mut cx, "layoutvec_u64", cap0, (0, false), &ops, Coq::Budget);
         }
         if i % 8 == 0 {
             let ops = gen_vec_ops(&mut rng, &[0, 0, 1, 4, 5, 6, 7, 8, 9, 12, 13, 14, 15], i % 16 == 0);
-            vec_cell(&mut cx, "mmapvec_u64", cap0, &ops, Coq::Budget);
+            vec_cell(&mut cx, "mmapvec_u64", cap0, (0, false), &ops, Coq::Budget);
         }
         if i % 3 == 0 {
             let ops = gen_str_ops(&mut rng, None);
             if i == 0 { cx.sum.sample(json!({"strvec_ops": ops.iter().take(8).collect::<Vec<_>>()})); }
             strvec_history(&mut cx, &ops, Coq::Budget);
-            let n = [4u64, 8, 16, 300][((i / 3) % 4) as usize];
+            let n = [4u64, 8, 16, 300, 32, 64][((i / 3) % 6) as usize];
             let ops = gen_str_ops(&mut rng, Some(n as usize));
             fixedlen_history(&mut cx, n, &ops, Coq::Budget);
         }
-        let kind = i % 13;
+        let kind = i % STR_KINDS;
         let strs = gen_strings(&mut rng, kind);
         if i < 13 && kind == 0 { cx.sum.sample(json!({"strings": strs.iter().take(6).collect::<Vec<_>>()})); }
         str_case(&mut cx, kind, &strs, rng.below(30));
@@ -1301,6 +1875,7 @@ pub fn run(args: &Args) {
     }
     valvec32_limits(&mut cx);
     fixedlen_limit(&mut cx);
+    breadth::run_all(&mut cx, args, &mut rng);
     // SortableStrVec at the 20-bit length limit, also replayed in Coq (the long strings are `repeat` terms there)
     strvec_history(&mut cx, &[json!([0, "head"]), json!([0, [120, (1u64 << 20) - 1]]), json!([0, [121, 1u64 << 20]]), json!([13, [122, (1u64 << 20) + 5]]), json!([0, "tail"]),
                               json!([1, 2]), json!([1, 1]), json!([1, 0]), json!([2]), json!([5]), json!([8, 0]), json!([8, 2]), json!([6]), json!([10]), json!([1, 2])], Coq::Always);
